@@ -1,6 +1,8 @@
 package rules
 
 import (
+	"fmt"
+	"go/constant"
 	"go/token"
 	"go/types"
 	"strings"
@@ -52,7 +54,7 @@ func init() {
 				Old: c08SplitLp + "1; i <= int(total); i++ {", New: c08SplitLp + "1; i < int(total); i++ {"},
 			{ID: "C08-S1-split-bound-threshold", File: c08File, Expect: "S1|ThresholdSplit identifiers run to total",
 				Old: c08SplitLp + "1; i <= int(total); i++ {", New: c08SplitLp + "1; i <= int(threshold); i++ {"},
-			{ID: "C08-S1-insecure-id-minus-one", File: c08File, Expect: "S1|ThresholdSplitInsecure identifier is the loop variable",
+			{ID: "C08-S1-insecure-id-minus-one", File: c08File, Expect: "S1|ThresholdSplitInsecure share stored under its identifier",
 				Old: c08InsecLp + "i))", New: c08InsecLp + "i - 1))"},
 			{ID: "C08-S1-split-key-zero-based", File: c08File, Expect: "S1|ThresholdSplit share stored under its identifier",
 				Old: "\t\tret[i] = *(*PrivateKey)(sk.Serialize())\n\t}\n\n\treturn ret, nil\n}\n\nfunc (Herumi) RecoverSecret(",
@@ -119,6 +121,23 @@ func init() {
 			{ID: "C08-S2-signing-zero-check-logged", File: "eth2util/signing/signing.go", Expect: "S2|signing.Verify rejects the zero signature",
 				Old: "\tif signature == zeroSig {\n\t\treturn errors.New(\"no signature found\")\n\t}",
 				New: "\tif signature == zeroSig {\n\t\t_ = errors.New(\"no signature found\")\n\t}"},
+			// ---- added with the provenance/path formulation (one per mechanism that was generalised)
+			{ID: "C08-S1-split-zero-based-loop", File: c08File, Expect: "S1|ThresholdSplit identifiers start at 1",
+				Old: c08SplitLp + "1; i <= int(total); i++ {", New: c08SplitLp + "0; i < int(total); i++ {"},
+			{ID: "C08-S1-split-constant-term-redrawn-in-place", File: c08File, Expect: "S1|ThresholdSplit constant term is the secret",
+				Old: c08SplitLp + "1; i <= int(total); i++ {", New: "\t\tpoly[i] = sk\n\t}\n\n\tpoly[0].SetByCSPRNG()\n\n\tret := make(map[int]PrivateKey)\n\n\tfor i := 1; i <= int(total); i++ {"},
+			{ID: "C08-S1-aggregate-id-error-ignored-for-nonpositive", File: c08File, Expect: "S1|ThresholdAggregate identifier is the map key",
+				Old: "\t\tif err := id.SetDecString(strconv.Itoa(idx)); err != nil {\n\t\t\treturn Signature{},",
+				New: "\t\tif err := id.SetDecString(strconv.Itoa(idx)); err != nil && idx > 0 {\n\t\t\treturn Signature{},"},
+			{ID: "C08-S1-aggregate-value-of-another-key", File: c08File, Expect: "S1|ThresholdAggregate value is the checked deserialisation",
+				Old: "\tfor idx, rawSignature := range partialSignaturesByIndex {\n\t\tvar signature bls.Sign\n\t\tif err := signature.Deserialize(rawSignature[:]); err != nil {",
+				New: "\tfor idx, rawSignature := range partialSignaturesByIndex {\n\t\tother := partialSignaturesByIndex[idx%len(partialSignaturesByIndex)+1]\n\t\t_ = rawSignature\n\n\t\tvar signature bls.Sign\n\t\tif err := signature.Deserialize(other[:]); err != nil {"},
+			{ID: "C08-S2-aggverify-empty-key-list-accepted", File: c08File, Expect: "S2|Herumi.VerifyAggregate nil only on the true edge",
+				Old: "\tif !sig.FastAggregateVerify(rawShares, data) {", New: "\tif len(rawShares) == 0 {\n\t\treturn nil\n\t}\n\n\tif !sig.FastAggregateVerify(rawShares, data) {"},
+			{ID: "C08-S2-aggverify-single-key-bypass", File: c08File, Expect: "S2|Herumi.VerifyAggregate nil only on the true edge",
+				Old: "\tif !sig.FastAggregateVerify(rawShares, data) {", New: "\tverified := sig.FastAggregateVerify(rawShares, data)\n\tverified = verified || len(rawShares) == 1\n\n\tif !verified {"},
+			{ID: "C08-S2-forward-verify-error-dropped-for-empty-data", File: "tbls/tbls.go", Expect: "S2|tbls.Verify forwards",
+				Old: "\treturn impl.Verify(compressedPublicKey, data, signature)", New: "\tif err := impl.Verify(compressedPublicKey, data, signature); err != nil && len(data) > 0 {\n\t\treturn err\n\t}\n\n\treturn nil"},
 		},
 	})
 }
@@ -136,7 +155,7 @@ func c08(c *rt.Ctx) {
 		}
 		c08Impl(c)
 	})
-	c.Rule("S2", 11, func() {
+	c.Rule("S2", 13, func() {
 		c08VerifyGate(c, "Verify", "VerifyByte")
 		c08VerifyGate(c, "VerifyAggregate", "FastAggregateVerify")
 		c08Forward(c, "Verify")
@@ -146,11 +165,29 @@ func c08(c *rt.Ctx) {
 }
 
 // ---------------------------------------------------------------------------------------------
-// small SSA helpers
+// Formulation (refactor-robust): every obligation is a statement about *where a value comes from*
+// (backward provenance from the results the functions hand out), decided on paths, not on the
+// shape of the code:
+//
+//   - a herumi value (bls.ID, bls.SecretKey, ...) is resolved to the library call that gives it its
+//     value (c08Origin): through plain locals, whole-value assignments, results of in-package
+//     helpers, helpers that fill a pointer argument and parameters of such helpers (frames map a
+//     helper's parameters back to the arguments of the call);
+//   - "the error is checked" means: under the valuation error != nil no path leads from the call to
+//     the use (valuation-driven path search, decides named booleans / short-circuit phis /
+//     switch / inverted polarity alike); an error that a helper hands back unchanged is checked
+//     by the caller of the helper;
+//   - integers are compared as `base + constant` forms after conversions and parameter lifting, so
+//     that `for i := 0; i < n; i++ { id := i+1 }` and `for i := 1; i <= n; i++ { id := i }` are
+//     the same statement; loops are natural loops with a header counter (up or down), map ranges
+//     or slice ranges (range or index form);
+//   - lists are either accumulated with append over the loop or filled at the loop's position.
+//
+// Anything that does not fit is UNDECIDED; a violation is only reported for a definite defect.
 
 func c08BLSName(typ, method string) string { return c08BLS + "." + typ + "." + method }
 
-// c08IsBLSMethod reports the method name if call is a static call of a method of a herumi bls type.
+// c08BLSMethod reports the method name if call is a static call of a method of a herumi bls type.
 func c08BLSMethod(cc *ssa.CallCommon) (typ, method string, ok bool) {
 	f := cc.StaticCallee()
 	if f == nil || cc.IsInvoke() {
@@ -176,16 +213,146 @@ var c08Readers = map[string]bool{"Serialize": true, "SerializeToHexStr": true, "
 	"GetLittleEndian": true, "IsEqual": true, "IsZero": true, "VerifyByte": true, "FastAggregateVerify": true, "Verify": true,
 	"SignByte": true, "GetPublicKey": true, "GetSafePublicKey": true, "SerializeUncompressed": true}
 
-// c08Local describes how a stack/heap local of a herumi value type is written.
-type c08Local struct {
-	Writers []*ssa.Call       // calls overwriting it (receiver position)
-	Unknown []ssa.Instruction // uses that cannot be classified
-	Stores  []*ssa.Store
+// ---------------------------------------------------------------------------------------------
+// frames: a value inside an in-package helper is related to the anchor function through the call
+
+type c08Frame struct {
+	call *ssa.Call
+	up   *c08Frame
 }
 
-func c08LocalOf(al *ssa.Alloc) c08Local {
+func c08FrameEq(a, b *c08Frame) bool {
+	for a != nil && b != nil {
+		if a.call != b.call {
+			return false
+		}
+		a, b = a.up, b.up
+	}
+	return a == nil && b == nil
+}
+
+// c08Val is a value together with the frame it lives in (nil frame: the anchor function).
+type c08Val struct {
+	V ssa.Value
+	F *c08Frame
+}
+
+func c08Same(a, b c08Val) bool { return a.V == b.V && c08FrameEq(a.F, b.F) }
+
+func c08ParamIndex(p *ssa.Parameter) int {
+	for i, q := range p.Parent().Params {
+		if q == p {
+			return i
+		}
+	}
+	return -1
+}
+
+// c08InPkgCallee: the static callee of a plain call if it is a source function of the same package.
+func c08InPkgCallee(call *ssa.Call) *ssa.Function {
+	if call == nil || call.Call.IsInvoke() {
+		return nil
+	}
+	g := call.Call.StaticCallee()
+	if g == nil || g.Blocks == nil || g.Pkg == nil || g.Pkg != call.Parent().Pkg {
+		return nil
+	}
+	return g
+}
+
+// c08Lift strips conversions and single-assignment spills and maps parameters of helpers to the
+// arguments of the calls that opened the frames, as far as possible towards the anchor function.
+func c08Lift(v ssa.Value, f *c08Frame) c08Val {
+	for i := 0; i < 16; i++ {
+		v = an.Resolve(v)
+		p, ok := v.(*ssa.Parameter)
+		if !ok || f == nil {
+			break
+		}
+		if p.Parent() != f.call.Call.StaticCallee() {
+			break
+		}
+		idx := c08ParamIndex(p)
+		if idx < 0 || idx >= len(f.call.Call.Args) {
+			break
+		}
+		v, f = f.call.Call.Args[idx], f.up
+	}
+	return c08Val{v, f}
+}
+
+// c08Lin is `Base + K` (Base.V == nil: the constant K).
+type c08Lin struct {
+	Base c08Val
+	K    int64
+}
+
+func (l c08Lin) isConst() bool { return l.Base.V == nil }
+
+func c08LinEq(a, b c08Lin) bool {
+	if a.isConst() || b.isConst() {
+		return a.isConst() && b.isConst() && a.K == b.K
+	}
+	return a.K == b.K && c08Same(a.Base, b.Base)
+}
+
+// c08LinOf decomposes an integer expression into base + constant.
+func c08LinOf(v ssa.Value, f *c08Frame) c08Lin {
+	var k int64
+	for i := 0; i < 12; i++ {
+		lv := c08Lift(v, f)
+		v, f = lv.V, lv.F
+		if c, ok := an.ConstInt(v); ok {
+			return c08Lin{K: k + c}
+		}
+		bin, ok := v.(*ssa.BinOp)
+		if !ok || (bin.Op != token.ADD && bin.Op != token.SUB) {
+			break
+		}
+		if c, ok := an.ConstInt(bin.Y); ok {
+			if bin.Op == token.ADD {
+				k += c
+			} else {
+				k -= c
+			}
+			v = bin.X
+			continue
+		}
+		if c, ok := an.ConstInt(bin.X); ok && bin.Op == token.ADD {
+			k += c
+			v = bin.Y
+			continue
+		}
+		break
+	}
+	return c08Lin{Base: c08Val{v, f}, K: k}
+}
+
+// ---------------------------------------------------------------------------------------------
+// locals of herumi value types
+
+type c08HelperUse struct {
+	Call *ssa.Call
+	Arg  int
+}
+
+// c08Local describes how the memory behind a pointer (a local, or a pointer parameter) is written.
+type c08Local struct {
+	Writers []*ssa.Call       // herumi methods overwriting it (receiver position)
+	Stores  []*ssa.Store      // whole-value assignments
+	Helpers []c08HelperUse    // in-package helpers that write it through a pointer parameter
+	Unknown []ssa.Instruction // uses that cannot be classified
+}
+
+func (l c08Local) defs() int { return len(l.Writers) + len(l.Stores) + len(l.Helpers) }
+
+func c08LocalOf(ptr ssa.Value, depth int) c08Local {
 	var l c08Local
-	for _, ref := range *al.Referrers() {
+	refs := ptr.Referrers()
+	if refs == nil {
+		return l
+	}
+	for _, ref := range *refs {
 		switch x := ref.(type) {
 		case *ssa.DebugRef:
 		case *ssa.UnOp:
@@ -193,29 +360,42 @@ func c08LocalOf(al *ssa.Alloc) c08Local {
 				l.Unknown = append(l.Unknown, x)
 			}
 		case *ssa.Store:
-			if x.Addr == ssa.Value(al) {
+			if x.Addr == ptr && x.Val != ptr {
 				l.Stores = append(l.Stores, x)
 			} else {
 				l.Unknown = append(l.Unknown, x) // address escapes
 			}
 		case *ssa.Call:
-			_, m, ok := c08BLSMethod(&x.Call)
-			if !ok || len(x.Call.Args) == 0 {
+			if _, m, ok := c08BLSMethod(&x.Call); ok && len(x.Call.Args) > 0 {
+				if x.Call.Args[0] == ptr {
+					switch {
+					case c08Writers[m]:
+						l.Writers = append(l.Writers, x)
+					case c08Readers[m]:
+					default:
+						l.Unknown = append(l.Unknown, x)
+					}
+				}
+				// operand position of another herumi value's method (Set(poly, &id), VerifyByte(&pub, msg)): read
+				continue
+			}
+			g := c08InPkgCallee(x)
+			if g == nil || depth > 3 {
 				l.Unknown = append(l.Unknown, x)
 				continue
 			}
-			if x.Call.Args[0] == ssa.Value(al) {
-				switch {
-				case c08Writers[m]:
-					l.Writers = append(l.Writers, x)
-				case c08Readers[m]:
-				default:
-					l.Unknown = append(l.Unknown, x)
+			for i, a := range x.Call.Args {
+				if a != ptr || i >= len(g.Params) {
+					continue
 				}
-				// the same local may also be passed as an operand of its own method: a read
-				continue
+				sub := c08LocalOf(g.Params[i], depth+1)
+				switch {
+				case len(sub.Unknown) > 0:
+					l.Unknown = append(l.Unknown, x)
+				case sub.defs() > 0:
+					l.Helpers = append(l.Helpers, c08HelperUse{x, i})
+				}
 			}
-			// operand position of another herumi value's method (Set(poly, &id), VerifyByte(&pub, msg)): read
 		default:
 			l.Unknown = append(l.Unknown, ref)
 		}
@@ -236,58 +416,361 @@ func c08LoadOf(v ssa.Value) *ssa.Alloc {
 	return nil
 }
 
-// c08SoleWriter resolves the single call that gives local al its value and checks that it is a
-// checked guard of use. status: "ok", "bad" (definite defect, why says what), "unsure".
-func c08SoleWriter(al *ssa.Alloc, use ssa.Instruction, method string) (w *ssa.Call, status, why string) {
-	if al == nil {
-		return nil, "unsure", "operand is not a local variable of the function"
-	}
-	l := c08LocalOf(al)
-	if len(l.Unknown) > 0 || len(l.Stores) > 0 {
-		return nil, "unsure", "the local is also assigned or used in a way this rule does not model"
-	}
-	if len(l.Writers) == 0 {
-		return nil, "bad", "the value is used without ever being set (zero value)"
-	}
-	if len(l.Writers) > 1 {
-		return nil, "unsure", "the local is written by several calls"
-	}
-	w = l.Writers[0]
-	_, m, _ := c08BLSMethod(&w.Call)
-	if m != method {
-		return w, "unsure", "the local is set by " + m + ", expected " + method
-	}
-	if !an.Dominates(w, use) {
-		return w, "bad", method + " does not precede the use on every path"
-	}
-	if res := w.Call.Signature().Results(); res.Len() == 1 && an.IsErrorType(res.At(0).Type()) {
-		if ok, g := an.Guarded(w, use, an.DefaultGuard); !ok {
-			return w, "bad", "the error of " + method + " is not checked before the value is used: " + g
+// c08PtrOf: the memory a herumi operand designates: &local, a pointer parameter, or a load of one of them.
+func c08PtrOf(v ssa.Value) ssa.Value {
+	switch x := v.(type) {
+	case *ssa.Alloc:
+		return x
+	case *ssa.Parameter:
+		if _, ok := x.Type().Underlying().(*types.Pointer); ok {
+			return x
+		}
+	case *ssa.UnOp:
+		if x.Op == token.MUL {
+			switch y := x.X.(type) {
+			case *ssa.Alloc:
+				return y
+			case *ssa.Parameter:
+				return y
+			}
 		}
 	}
-	return w, "ok", ""
+	return nil
+}
+
+// ---------------------------------------------------------------------------------------------
+// checked errors (path-sensitive)
+
+// c08ErrAliases: the SSA values that equal error value e: e itself and loads of a variable that e was
+// assigned to, as long as no other assignment to the variable can come in between.
+func c08ErrAliases(e ssa.Value) (set map[ssa.Value]bool, spilled bool) {
+	set = map[ssa.Value]bool{e: true}
+	refs := e.Referrers()
+	if refs == nil {
+		return set, false
+	}
+	for _, r := range *refs {
+		st, ok := r.(*ssa.Store)
+		if !ok || st.Val != e {
+			continue
+		}
+		al, ok := st.Addr.(*ssa.Alloc)
+		if !ok {
+			spilled = true
+			continue
+		}
+		spilled = true
+		var others []*ssa.Store
+		var loads []*ssa.UnOp
+		for _, ar := range *al.Referrers() {
+			switch y := ar.(type) {
+			case *ssa.Store:
+				if y != st && y.Addr == ssa.Value(al) {
+					others = append(others, y)
+				}
+			case *ssa.UnOp:
+				if y.Op == token.MUL {
+					loads = append(loads, y)
+				}
+			}
+		}
+		for _, ld := range loads {
+			if !an.Dominates(st, ld) {
+				continue
+			}
+			clean := true
+			for _, o := range others {
+				if an.InstrReaches(st, o) && an.InstrReaches(o, ld) {
+					clean = false
+				}
+			}
+			if clean {
+				set[ld] = true
+			}
+		}
+	}
+	return set, spilled
+}
+
+func c08HasErr(call ssa.CallInstruction) bool {
+	res := call.Common().Signature().Results()
+	for i := 0; i < res.Len(); i++ {
+		if an.IsErrorType(res.At(i).Type()) {
+			return true
+		}
+	}
+	return false
+}
+
+// c08Checked: no path leads from call w to use when w's error is non-nil. status "ok" / "no" (a path exists) /
+// "unsure" (a path exists but the error travels through a variable this rule cannot follow exactly).
+func c08Checked(w ssa.CallInstruction, use ssa.Instruction) (status, why string) {
+	if !c08HasErr(w) {
+		return "ok", ""
+	}
+	errs, _ := an.StatusOf(w, -1)
+	if len(errs) == 0 {
+		return "no", "the error result is discarded"
+	}
+	for _, e := range errs {
+		alias, spilled := c08ErrAliases(e)
+		env := func(v ssa.Value) (constant.Value, bool) {
+			if alias[v] {
+				return an.H06NonNil, true
+			}
+			return nil, false
+		}
+		// a test helper that aborts on the error (require.NoError(t, err)) ends the path like a return does
+		aborts := func(in ssa.Instruction) bool {
+			call, ok := in.(*ssa.Call)
+			if !ok || !an.Static("github.com/stretchr/testify/require.NoError", "github.com/stretchr/testify/require.Nil")(&call.Call) {
+				return false
+			}
+			for _, a := range call.Call.Args {
+				if alias[an.Unwrap(a)] || alias[a] {
+					return true
+				}
+			}
+			return false
+		}
+		if _, found := an.H06Escape(w, an.H06Opt{Env: env, Target: use, NoReenter: true, Effect: aborts}); found {
+			if spilled {
+				return "unsure", "the error is kept in a variable whose tests this rule cannot follow"
+			}
+			return "no", "the use is reached on a path on which the error is non-nil"
+		}
+	}
+	return "ok", ""
+}
+
+// c08IsErrOf: e is the error result of call w.
+func c08IsErrOf(e ssa.Value, w ssa.CallInstruction) bool {
+	if e == nil || w == nil {
+		return false
+	}
+	errs, _ := an.StatusOf(w, -1)
+	for _, x := range errs {
+		if x == e {
+			return true
+		}
+	}
+	return false
+}
+
+func c08ErrResult(g *ssa.Function) int {
+	res := g.Signature.Results()
+	for i := res.Len() - 1; i >= 0; i-- {
+		if an.IsErrorType(res.At(i).Type()) {
+			return i
+		}
+	}
+	return -1
+}
+
+// ---------------------------------------------------------------------------------------------
+// provenance of herumi values
+
+// c08Prov: the library call that gives a value its content, in its frame.
+type c08Prov struct {
+	W *ssa.Call
+	F *c08Frame
+}
+
+// c08Res is the outcome of a provenance query. Pend (only with St "ok") is a call whose error must be nil
+// for the value to be valid and that is not checked before the use inside the frame of the query: a helper
+// may hand that obligation to its caller by returning the error.
+type c08Res struct {
+	P    c08Prov
+	Pend ssa.CallInstruction
+	St   string // ok | bad | unsure
+	Why  string
+}
+
+func c08Bad(why string) c08Res    { return c08Res{St: "bad", Why: why} }
+func c08Unsure(why string) c08Res { return c08Res{St: "unsure", Why: why} }
+
+// c08Origin resolves herumi value v, as observed by instruction use in frame f, to the call of `method` that
+// produced it.
+func c08Origin(v ssa.Value, use ssa.Instruction, f *c08Frame, method string, d int) c08Res {
+	if d > 8 {
+		return c08Unsure("value provenance is too deep to follow")
+	}
+	if ptr := c08PtrOf(v); ptr != nil {
+		l := c08LocalOf(ptr, 0)
+		if len(l.Unknown) > 0 {
+			return c08Unsure("the local is also used in a way this rule does not model")
+		}
+		if l.defs() == 0 {
+			if p, ok := ptr.(*ssa.Parameter); ok && f != nil && p.Parent() == f.call.Call.StaticCallee() {
+				if idx := c08ParamIndex(p); idx >= 0 && idx < len(f.call.Call.Args) {
+					return c08Origin(f.call.Call.Args[idx], f.call, f.up, method, d+1)
+				}
+			}
+			if _, ok := ptr.(*ssa.Parameter); ok {
+				return c08Unsure("the value is a parameter")
+			}
+			return c08Bad("the value is used without ever being set (zero value)")
+		}
+		if l.defs() > 1 {
+			return c08Unsure("the local is written more than once")
+		}
+		switch {
+		case len(l.Writers) == 1:
+			w := l.Writers[0]
+			_, m, _ := c08BLSMethod(&w.Call)
+			if m != method {
+				// only Set (evaluation) and Recover (interpolation) have no equivalent spelling; an identifier or a
+				// deserialised value may be produced by another setter to the same effect
+				if method == "Set" || method == "Recover" {
+					return c08Bad("the value is produced by " + m + ", not by " + method)
+				}
+				return c08Unsure("the value is produced by " + m + ", expected " + method)
+			}
+			if !an.Dominates(w, use) {
+				return c08Bad(method + " does not precede the use on every path")
+			}
+			res := c08Res{P: c08Prov{w, f}, St: "ok"}
+			switch st, why := c08Checked(w, use); st {
+			case "no":
+				res.Pend = w
+				res.Why = why
+			case "unsure":
+				return c08Unsure("error of " + method + ": " + why)
+			}
+			return res
+		case len(l.Stores) == 1:
+			st := l.Stores[0]
+			if !an.Dominates(st, use) {
+				return c08Bad("the value is not assigned on every path to its use")
+			}
+			return c08Origin(st.Val, use, f, method, d+1)
+		default:
+			h := l.Helpers[0]
+			if !an.Dominates(h.Call, use) {
+				return c08Bad("the value is not set on every path to its use")
+			}
+			return c08ViaHelper(h.Call, -1, h.Arg, use, f, method, d)
+		}
+	}
+	switch x := v.(type) {
+	case *ssa.Parameter:
+		if f != nil && x.Parent() == f.call.Call.StaticCallee() {
+			if idx := c08ParamIndex(x); idx >= 0 && idx < len(f.call.Call.Args) {
+				return c08Origin(f.call.Call.Args[idx], f.call, f.up, method, d+1)
+			}
+		}
+		return c08Unsure("the value is a parameter")
+	case *ssa.Extract:
+		if call, ok := x.Tuple.(*ssa.Call); ok {
+			return c08ViaHelper(call, x.Index, -1, use, f, method, d)
+		}
+	case *ssa.Call:
+		return c08ViaHelper(x, 0, -1, use, f, method, d)
+	}
+	return c08Unsure("the value is not a local variable, nor the result of an in-package helper")
+}
+
+// c08ViaHelper follows a value into an in-package helper: result #resIdx of the call, or (resIdx < 0) the memory
+// behind pointer argument #argIdx. Every return of the helper that can carry a nil error must yield the value of
+// the same producing call; an unchecked error of the producer must be the error the helper returns, and is then
+// the caller's to check.
+func c08ViaHelper(call *ssa.Call, resIdx, argIdx int, use ssa.Instruction, f *c08Frame, method string, d int) c08Res {
+	g := c08InPkgCallee(call)
+	if g == nil {
+		return c08Unsure("the value is produced by " + an.CalleeName(&call.Call) + ", which this rule does not follow")
+	}
+	if g == call.Parent() {
+		return c08Unsure("recursive helper")
+	}
+	nf := &c08Frame{call, f}
+	errIdx := c08ErrResult(g)
+	var got *c08Prov
+	name := an.FuncName(g)
+	for _, r := range c08Returns(g) {
+		if errIdx >= 0 {
+			e := r.Vals[errIdx]
+			if e != nil && (c08NonNilErr(e) || c09NonNilEdge(g, e, r.Sink[errIdx])) {
+				continue // failing return: the value handed back with it carries no obligation
+			}
+		}
+		var rv ssa.Value
+		if resIdx >= 0 {
+			if resIdx >= len(r.Vals) || r.Vals[resIdx] == nil {
+				return c08Unsure("a result of " + name + " cannot be resolved")
+			}
+			rv = r.Vals[resIdx]
+		} else {
+			rv = g.Params[argIdx]
+		}
+		sub := c08Origin(rv, r.Ret, nf, method, d+1)
+		if sub.St != "ok" {
+			sub.Why = "in " + name + ": " + sub.Why
+			return sub
+		}
+		if sub.Pend != nil {
+			if errIdx < 0 || !c08IsErrOf(r.Vals[errIdx], sub.Pend) {
+				return c08Bad("in " + name + ": the error of " + an.CalleeName(sub.Pend.Common()) + " is neither checked nor handed back to the caller: " + sub.Why)
+			}
+		}
+		if got != nil && got.W != sub.P.W {
+			return c08Unsure(name + " hands back values of several producers")
+		}
+		p := sub.P
+		got = &p
+	}
+	if got == nil {
+		return c08Unsure("no successful return found in " + name)
+	}
+	res := c08Res{P: *got, St: "ok"}
+	if errIdx >= 0 {
+		switch st, why := c08Checked(call, use); st {
+		case "no":
+			res.Pend, res.Why = call, why
+		case "unsure":
+			return c08Unsure("error of " + name + ": " + why)
+		}
+	}
+	return res
+}
+
+// c08Top is c08Origin for a use in the anchor function itself: a pending error is a defect.
+func c08Top(v ssa.Value, use ssa.Instruction, f *c08Frame, method string) c08Res {
+	res := c08Origin(v, use, f, method, 0)
+	if res.St == "ok" && res.Pend != nil {
+		if f != nil {
+			// inside a helper frame the caller would have to check; the callers of c08Top only query complete frames
+			return c08Unsure("the error of " + an.CalleeName(res.Pend.Common()) + " is not checked inside the helper")
+		}
+		return c08Bad("the error of " + an.CalleeName(res.Pend.Common()) + " is not checked before the value is used: " + res.Why)
+	}
+	return res
 }
 
 // c08BytesSrc resolves the []byte operand `x[:]` of a Deserialize call to the value stored in the
-// sliced array local; full reports whether the whole array is passed.
-func c08BytesSrc(v ssa.Value) (src ssa.Value, full bool) {
-	sl, ok := v.(*ssa.Slice)
-	if !ok {
-		return nil, false
+// sliced array variable (lifted); full reports whether the whole array is passed.
+func c08BytesSrc(v ssa.Value, f *c08Frame) (src c08Val, full, ok bool) {
+	sl, isSl := v.(*ssa.Slice)
+	if !isSl {
+		return c08Val{}, false, false
 	}
-	al := c08Alloc(sl.X)
-	if al == nil {
-		return nil, false
+	full = sl.Low == nil && sl.High == nil && sl.Max == nil
+	switch x := sl.X.(type) {
+	case *ssa.Alloc:
+		s := an.UniqueStore(x)
+		if s == nil {
+			return c08Val{}, false, false
+		}
+		return c08Lift(s, f), full, true
+	case *ssa.IndexAddr:
+		// &coll[i] sliced in place: the element itself
+		return c08Val{x, f}, full, true
 	}
-	src = an.UniqueStore(al)
-	if src == nil {
-		return nil, false
-	}
-	return src, sl.Low == nil && sl.High == nil && sl.Max == nil
+	return c08Val{}, false, false
 }
 
-// c08SerializedRecv: v is `*(*T)(x.Serialize())`; returns the local x.
-func c08SerializedRecv(v ssa.Value) *ssa.Alloc {
+// c08SerializedRecv: v is `*(*T)(x.Serialize())` / `T(x.Serialize())`; returns the operand x.
+func c08SerializedRecv(v ssa.Value) ssa.Value {
+	v = an.Resolve(v)
 	ld, ok := v.(*ssa.UnOp)
 	if !ok || ld.Op != token.MUL {
 		return nil
@@ -296,40 +779,37 @@ func c08SerializedRecv(v ssa.Value) *ssa.Alloc {
 	if !ok {
 		return nil
 	}
-	call, ok := sp.X.(*ssa.Call)
+	call, ok := an.Resolve(sp.X).(*ssa.Call)
 	if !ok {
 		return nil
 	}
 	if _, m, ok := c08BLSMethod(&call.Call); !ok || m != "Serialize" || len(call.Call.Args) != 1 {
 		return nil
 	}
-	return c08Alloc(call.Call.Args[0])
+	return call.Call.Args[0]
 }
 
 // c08Mentions: v is an expression (arithmetic, conversions) over want.
-func c08Mentions(v, want ssa.Value, d int) bool {
-	if v == want {
+func c08Mentions(v ssa.Value, f *c08Frame, want c08Val, d int) bool {
+	lv := c08Lift(v, f)
+	if c08Same(lv, want) {
 		return true
 	}
 	if d > 6 {
 		return false
 	}
-	switch x := v.(type) {
+	switch x := lv.V.(type) {
 	case *ssa.BinOp:
-		return c08Mentions(x.X, want, d+1) || c08Mentions(x.Y, want, d+1)
+		return c08Mentions(x.X, lv.F, want, d+1) || c08Mentions(x.Y, lv.F, want, d+1)
 	case *ssa.UnOp:
-		return x.Op != token.MUL && c08Mentions(x.X, want, d+1)
-	case *ssa.Convert:
-		return c08Mentions(x.X, want, d+1)
-	case *ssa.ChangeType:
-		return c08Mentions(x.X, want, d+1)
+		return x.Op != token.MUL && c08Mentions(x.X, lv.F, want, d+1)
 	}
 	return false
 }
 
 // c08IsLenCall: v is len(..).
 func c08IsLenCall(v ssa.Value) bool {
-	call, ok := v.(*ssa.Call)
+	call, ok := an.Unwrap(v).(*ssa.Call)
 	if !ok {
 		return false
 	}
@@ -337,66 +817,77 @@ func c08IsLenCall(v ssa.Value) bool {
 	return ok && (b.Name() == "len" || b.Name() == "cap")
 }
 
-// c08DefinitelyNot: x is visibly something other than want (constant, arithmetic, a counter).
-func c08DefinitelyNot(x, want ssa.Value) (bool, string) {
-	switch y := x.(type) {
-	case *ssa.Const:
-		return true, "the identifier is the constant " + y.Name()
+// c08DefinitelyNot: x is visibly something other than the share index `want` (constant, arithmetic, a position
+// counter, the other half of the range pair, a parameter that is the same for every share).
+func c08DefinitelyNot(x c08Lin, want c08Val) (bool, string) {
+	if x.isConst() {
+		return true, fmt.Sprintf("the identifier is the constant %d", x.K)
+	}
+	if want.V != nil && c08Same(x.Base, want) && x.K != 0 {
+		return true, fmt.Sprintf("arithmetic is applied to the index before it becomes the identifier (index%+d)", x.K)
+	}
+	switch y := x.Base.V.(type) {
 	case *ssa.BinOp:
-		if want != nil && c08Mentions(x, want, 0) {
+		if want.V != nil && c08Mentions(y, x.Base.F, want, 0) {
 			return true, "arithmetic is applied to the index before it becomes the identifier (" + y.Op.String() + ")"
 		}
 		if c08IsLenCall(y.X) || c08IsLenCall(y.Y) {
 			return true, "the identifier is a position counter, not the share index"
 		}
-		return true, "the identifier is computed (" + y.Op.String() + ") instead of being the share index itself"
 	case *ssa.Call:
-		if c08IsLenCall(x) {
+		if c08IsLenCall(y) {
 			return true, "the identifier is a position counter, not the share index"
 		}
 	case *ssa.Extract:
-		if w, ok := want.(*ssa.Extract); ok && w.Tuple == y.Tuple && w.Index != y.Index {
+		if w, ok := want.V.(*ssa.Extract); ok && w.Tuple == y.Tuple && w.Index != y.Index {
 			return true, "the identifier is taken from the map value, not the map key"
 		}
 	case *ssa.Parameter:
-		return true, "the identifier is the parameter " + y.Name() + ", the same for every share"
+		if x.Base.F == nil {
+			return true, "the identifier is the parameter " + y.Name() + ", the same for every share"
+		}
 	}
 	return false, ""
 }
 
-// c08DecID checks that the bls.ID local idA, as used by `use`, is SetDecString(strconv.Itoa(x)) with a
-// checked error, and returns x (conversions stripped). A nil return means the finding was recorded.
-func c08DecID(c *rt.Ctx, construct string, idA *ssa.Alloc, use ssa.Instruction) ssa.Value {
-	w, st, why := c08SoleWriter(idA, use, "SetDecString")
-	switch st {
+// c08DecID checks that bls.ID operand idV, as used by `use` in frame f, is SetDecString(strconv.Itoa(x)) with a
+// checked error, and returns x as base+constant. ok is false when the finding was recorded.
+func c08DecID(c *rt.Ctx, construct string, idV ssa.Value, use ssa.Instruction, f *c08Frame) (c08Lin, bool) {
+	res := c08Top(idV, use, f, "SetDecString")
+	switch res.St {
 	case "bad":
-		c.Bad(construct, posOf(use), "share identifier: "+why)
-		return nil
+		c.Bad(construct, posOf(use), "share identifier: "+res.Why)
+		return c08Lin{}, false
 	case "unsure":
-		c.Unsure(construct, posOf(use), "share identifier: "+why)
-		return nil
+		c.Unsure(construct, posOf(use), "share identifier: "+res.Why)
+		return c08Lin{}, false
 	}
+	w := res.P.W
 	if len(w.Call.Args) != 2 {
 		c.Unsure(construct, w.Pos(), "SetDecString: unexpected arity")
-		return nil
+		return c08Lin{}, false
 	}
-	conv, ok := w.Call.Args[1].(*ssa.Call)
+	conv, ok := an.Resolve(w.Call.Args[1]).(*ssa.Call)
 	if !ok {
 		c.Unsure(construct, w.Pos(), "the decimal string of the identifier is not produced by a call this rule knows")
-		return nil
+		return c08Lin{}, false
 	}
 	switch an.CalleeName(&conv.Call) {
 	case "strconv.Itoa":
-		return an.Unwrap(conv.Call.Args[0])
+		return c08LinOf(conv.Call.Args[0], res.P.F), true
 	case "strconv.FormatInt", "strconv.FormatUint":
 		if b, ok := an.ConstInt(conv.Call.Args[1]); ok && b == 10 {
-			return an.Unwrap(conv.Call.Args[0])
+			return c08LinOf(conv.Call.Args[0], res.P.F), true
 		}
-		c.Bad(construct, w.Pos(), "the identifier string handed to SetDecString is not rendered in base 10")
-		return nil
+		if _, ok := an.ConstInt(conv.Call.Args[1]); ok {
+			c.Bad(construct, w.Pos(), "the identifier string handed to SetDecString is not rendered in base 10")
+		} else {
+			c.Unsure(construct, w.Pos(), "the base of the identifier string is not a constant")
+		}
+		return c08Lin{}, false
 	}
 	c.Unsure(construct, w.Pos(), "the decimal string of the identifier is produced by "+an.CalleeName(&conv.Call)+", which this rule does not model")
-	return nil
+	return c08Lin{}, false
 }
 
 // c08ParamsOf returns the parameters of fn whose type satisfies pred, in order.
@@ -424,24 +915,30 @@ func c08LoopAt(fn *ssa.Function, header *ssa.BasicBlock) *an.Loop {
 	return nil
 }
 
-// c08Counter describes a header phi `for i := start; ...; i++`.
+// ---------------------------------------------------------------------------------------------
+// counters
+
+// c08Counter describes a header phi `for i := start; i OP bound; i += step` (step +1 or -1).
 type c08Counter struct {
-	Phi      *ssa.Phi
-	Loop     *an.Loop
-	Start    ssa.Value // entry value (single)
-	StepsOne bool      // every back edge carries phi+1
+	Phi   *ssa.Phi
+	Loop  *an.Loop
+	Start ssa.Value // entry value (single)
+	Step  int64     // counter advances by Step on every back edge; 0: the back edges are not all `counter + k`
 }
 
-func c08CounterOf(fn *ssa.Function, v ssa.Value) *c08Counter {
+func (ct *c08Counter) unit() bool { return ct.Step == 1 || ct.Step == -1 }
+
+func c08CounterOf(v ssa.Value) *c08Counter {
 	phi, ok := v.(*ssa.Phi)
 	if !ok {
 		return nil
 	}
-	l := c08LoopAt(fn, phi.Block())
+	l := c08LoopAt(phi.Parent(), phi.Block())
 	if l == nil {
 		return nil
 	}
-	ct := &c08Counter{Phi: phi, Loop: l, StepsOne: true}
+	ct := &c08Counter{Phi: phi, Loop: l}
+	first := true
 	for i, e := range phi.Edges {
 		pred := phi.Block().Preds[i]
 		if !l.Body[pred] {
@@ -451,236 +948,124 @@ func c08CounterOf(fn *ssa.Function, v ssa.Value) *c08Counter {
 			ct.Start = e
 			continue
 		}
-		bin, ok := e.(*ssa.BinOp)
-		one := false
-		if ok && bin.Op == token.ADD {
-			if k, isK := an.ConstInt(bin.Y); isK && k == 1 && bin.X == ssa.Value(phi) {
-				one = true
-			}
-			if k, isK := an.ConstInt(bin.X); isK && k == 1 && bin.Y == ssa.Value(phi) {
-				one = true
-			}
+		step := int64(0)
+		if lin := c08LinOf(e, nil); !lin.isConst() && lin.Base.V == ssa.Value(phi) {
+			step = lin.K
 		}
-		if !one {
-			ct.StepsOne = false
+		if first {
+			ct.Step, first = step, false
+		} else if ct.Step != step {
+			ct.Step = 0
 		}
 	}
-	if ct.Start == nil {
+	if ct.Start == nil || first {
 		return nil
 	}
 	return ct
 }
 
+// c08Range is the closed interval [Lo, Hi] of the values `counter + off` takes while the loop body runs.
+type c08Range struct {
+	Lo, Hi c08Lin
+	Pos    token.Pos
+}
+
+func c08LinAdd(l c08Lin, k int64) c08Lin { l.K += k; return l }
+
+// c08CounterRange derives the values of `counter + off` inside the body from the start value and the header
+// condition that keeps the loop running. The header may test the counter itself or counter+a (go/ssa range loops
+// increment in the header). ok is false if the loop condition is not understood.
+func c08CounterRange(ct *c08Counter, off int64) (c08Range, bool) {
+	var r c08Range
+	if !ct.unit() {
+		return r, false
+	}
+	start := c08LinAdd(c08LinOf(ct.Start, nil), off)
+	fn := ct.Phi.Parent()
+	type cand struct {
+		v ssa.Value
+		a int64 // tested value = counter + a
+	}
+	cands := []cand{{ct.Phi, 0}}
+	for _, ref := range *ct.Phi.Referrers() {
+		if bin, ok := ref.(*ssa.BinOp); ok && bin.Block() == ct.Loop.Header {
+			if lin := c08LinOf(bin, nil); !lin.isConst() && lin.Base.V == ssa.Value(ct.Phi) && lin.K != 0 {
+				cands = append(cands, cand{bin, lin.K})
+			}
+		}
+	}
+	for _, cn := range cands {
+		for _, cd := range an.CondsOn(fn, cn.v) {
+			if cd.If.Block() != ct.Loop.Header || cd.Other == nil {
+				continue
+			}
+			var stayTrue bool
+			switch {
+			case ct.Loop.Body[cd.Succ(true)] && !ct.Loop.Body[cd.Succ(false)]:
+				stayTrue = true
+			case ct.Loop.Body[cd.Succ(false)] && !ct.Loop.Body[cd.Succ(true)]:
+				stayTrue = false
+			default:
+				continue
+			}
+			op := cd.Op
+			if !stayTrue {
+				switch op {
+				case token.LSS:
+					op = token.GEQ
+				case token.LEQ:
+					op = token.GTR
+				case token.GTR:
+					op = token.LEQ
+				case token.GEQ:
+					op = token.LSS
+				case token.EQL:
+					op = token.NEQ
+				default:
+					continue
+				}
+			}
+			if op == token.NEQ {
+				// `for i := s; i != b; i++`: the counter meets the bound exactly (unit step), same as a strict comparison
+				if ct.Step > 0 {
+					op = token.LSS
+				} else {
+					op = token.GTR
+				}
+			}
+			// the body runs while counter + a OP bound, i.e. counter + off OP bound - a + off
+			bound := c08LinAdd(c08LinOf(cd.Other, nil), off-cn.a)
+			r.Pos = posOf(cd.If)
+			switch {
+			case ct.Step > 0 && op == token.LEQ:
+				r.Lo, r.Hi = start, bound
+			case ct.Step > 0 && op == token.LSS:
+				r.Lo, r.Hi = start, c08LinAdd(bound, -1)
+			case ct.Step < 0 && op == token.GEQ:
+				r.Lo, r.Hi = bound, start
+			case ct.Step < 0 && op == token.GTR:
+				r.Lo, r.Hi = c08LinAdd(bound, 1), start
+			default:
+				continue
+			}
+			return r, true
+		}
+	}
+	return r, false
+}
+
+// c08IndexForm relates an index expression to a loop counter of the anchor function: idx = counter + off.
+// ct is nil if idx is not derived from a header counter.
+func c08IndexForm(idx ssa.Value, f *c08Frame) (ct *c08Counter, off int64, lin c08Lin) {
+	lin = c08LinOf(idx, f)
+	if lin.isConst() || lin.Base.F != nil {
+		return nil, 0, lin
+	}
+	return c08CounterOf(lin.Base.V), lin.K, lin
+}
+
 // ---------------------------------------------------------------------------------------------
 // S1: split side
-
-func c08Split(c *rt.Ctx, name string) {
-	fn := c.Fn("tbls.Herumi." + name)
-	pre := name + " "
-	uints := c08ParamsOf(fn, c08IsUint)
-	secrets := c08ParamsOf(fn, func(t types.Type) bool { return an.TypeName(t) == "tbls.PrivateKey" })
-	if len(uints) != 2 || len(secrets) != 1 {
-		c.Bail("%s: expected parameters (secret PrivateKey, total uint, threshold uint)", an.FuncName(fn))
-	}
-	total, threshold, secret := uints[0], uints[1], secrets[0]
-	set := c.OneCall(fn, an.Static(c08BLSName("SecretKey", "Set")), "bls.SecretKey.Set", false).(*ssa.Call)
-	if len(set.Call.Args) != 3 {
-		c.Bail("%s: bls.SecretKey.Set: unexpected arity", an.FuncName(fn))
-	}
-	skA, poly, idA := c08Alloc(set.Call.Args[0]), set.Call.Args[1], c08Alloc(set.Call.Args[2])
-
-	// (1) identifier = Itoa(loop variable), loop 1..total step 1
-	var ctr *c08Counter
-	if x := c08DecID(c, pre+"identifier is the loop variable", idA, set); x != nil {
-		ctr = c08CounterOf(fn, x)
-		inner := an.InnermostLoop(fn, set.Block())
-		switch {
-		case ctr != nil && inner != nil && ctr.Loop.Header == inner.Header:
-			c.Good(pre+"identifier is the loop variable", set.Pos(), "SetDecString(strconv.Itoa(i)) of the loop variable, error checked")
-		case ctr != nil:
-			c.Bad(pre+"identifier is the loop variable", set.Pos(), "the identifier is the counter of an outer loop: several shares of the inner loop get the same identifier")
-			ctr = nil
-		default:
-			var want ssa.Value
-			if inner != nil {
-				for _, in := range inner.Header.Instrs {
-					if p, ok := in.(*ssa.Phi); ok && c08Mentions(x, p, 0) {
-						want = p
-					}
-				}
-			}
-			if bad, why := c08DefinitelyNot(x, want); bad {
-				c.Bad(pre+"identifier is the loop variable", set.Pos(), why)
-			} else {
-				c.Unsure(pre+"identifier is the loop variable", set.Pos(), "cannot relate the identifier to the loop variable of the share loop")
-			}
-		}
-	}
-	if ctr != nil {
-		k, isK := an.ConstInt(ctr.Start)
-		switch {
-		case isK && k == 1:
-			c.Good(pre+"identifiers start at 1", ctr.Phi.Pos(), "")
-		case isK:
-			c.Bad(pre+"identifiers start at 1", ctr.Phi.Pos(), "the share loop starts at "+ctr.Start.Name()+
-				": identifiers must be 1..total (identifier 0 evaluates the polynomial at 0, i.e. hands out the secret itself)")
-		default:
-			c.Unsure(pre+"identifiers start at 1", ctr.Phi.Pos(), "the first identifier is not a constant")
-		}
-		c.Check(pre+"identifiers are consecutive", ctr.Phi.Pos(), ctr.StepsOne, "the share loop does not advance the identifier by exactly 1")
-		// bound: stays in the loop exactly while i <= total
-		decided := false
-		for _, cd := range an.CondsOn(fn, ctr.Phi) {
-			if cd.If.Block() != ctr.Loop.Header || cd.Other == nil {
-				continue
-			}
-			decided = true
-			other := an.Unwrap(cd.Other)
-			var stay *ssa.BasicBlock
-			op := cd.Op
-			switch op {
-			case token.LEQ, token.LSS:
-				stay = cd.Succ(true)
-			case token.GTR, token.GEQ:
-				stay = cd.Succ(false)
-			}
-			switch {
-			case stay == nil || !ctr.Loop.Body[stay]:
-				c.Unsure(pre+"identifiers run to total", posOf(cd.If), "loop condition has an unexpected shape")
-			case other == ssa.Value(total) && (op == token.LEQ || op == token.GTR):
-				c.Good(pre+"identifiers run to total", posOf(cd.If), "")
-			case other == ssa.Value(total):
-				c.Bad(pre+"identifiers run to total", posOf(cd.If), "the share loop stops before identifier `total`: fewer than total shares are produced")
-			case other == ssa.Value(threshold):
-				c.Bad(pre+"identifiers run to total", posOf(cd.If), "the share loop is bounded by threshold instead of total")
-			default:
-				if _, isConst := other.(*ssa.Const); isConst {
-					c.Bad(pre+"identifiers run to total", posOf(cd.If), "the share loop is bounded by a constant instead of total")
-				} else {
-					c.Unsure(pre+"identifiers run to total", posOf(cd.If), "cannot relate the loop bound to the total parameter")
-				}
-			}
-		}
-		if !decided {
-			c.Unsure(pre+"identifiers run to total", ctr.Phi.Pos(), "no loop condition on the identifier found in the loop header")
-		}
-	}
-
-	// (2) the share is stored under its identifier and is the evaluated key
-	var retMap ssa.Value
-	for _, r := range an.Returns(fn) {
-		if len(r.Results) == 2 && an.IsNilConst(r.Results[1]) {
-			if retMap != nil && retMap != r.Results[0] {
-				c.Bail("%s: several result maps", an.FuncName(fn))
-			}
-			retMap = r.Results[0]
-		}
-	}
-	if retMap == nil {
-		c.Bail("%s: no successful return found", an.FuncName(fn))
-	}
-	ups := mapUpdates(fn, func(m ssa.Value) bool { return m == retMap })
-	if len(ups) == 0 {
-		c.Unsure(pre+"share stored under its identifier", fn.Pos(), "no insertion into the returned map found")
-	}
-	for _, up := range ups {
-		if ctr != nil {
-			key := an.Unwrap(up.Key)
-			if key == ssa.Value(ctr.Phi) {
-				c.Good(pre+"share stored under its identifier", posOf(up), "")
-			} else if bad, why := c08DefinitelyNot(key, ctr.Phi); bad {
-				c.Bad(pre+"share stored under its identifier", posOf(up), "map key differs from the identifier the share was evaluated at: "+why)
-			} else {
-				c.Unsure(pre+"share stored under its identifier", posOf(up), "cannot relate the map key to the identifier")
-			}
-		}
-		recv := c08SerializedRecv(up.Value)
-		switch {
-		case recv == nil:
-			c.Unsure(pre+"stored share is the evaluated key", posOf(up), "stored value is not the serialisation of a local key")
-		case recv != skA:
-			c.Bad(pre+"stored share is the evaluated key", posOf(up), "the stored share is the serialisation of `"+recv.Comment+"`, not of the key evaluated by Set with this identifier")
-		default:
-			_, st, why := c08SoleWriter(skA, up, "Set")
-			c08Record(c, pre+"stored share is the evaluated key", posOf(up), st, why)
-		}
-	}
-
-	// (3) polynomial: `threshold` coefficients, constant term the secret, never overwritten
-	mk, ok := poly.(*ssa.MakeSlice)
-	if !ok {
-		c.Unsure(pre+"polynomial has threshold coefficients", set.Pos(), "polynomial operand of Set is not a slice made in this function")
-		return
-	}
-	switch ln := an.Unwrap(mk.Len); {
-	case ln == ssa.Value(threshold):
-		c.Good(pre+"polynomial has threshold coefficients", mk.Pos(), "")
-	case ln == ssa.Value(total):
-		c.Bad(pre+"polynomial has threshold coefficients", mk.Pos(), "the polynomial has `total` coefficients: total (not threshold) shares are needed to recover")
-	default:
-		if bad, why := c08DefinitelyNot(ln, threshold); bad {
-			c.Bad(pre+"polynomial has threshold coefficients", mk.Pos(), "polynomial length is not the threshold parameter: "+why)
-		} else {
-			c.Unsure(pre+"polynomial has threshold coefficients", mk.Pos(), "cannot relate the polynomial length to the threshold parameter")
-		}
-	}
-	constTerm := 0
-	for _, ref := range *mk.Referrers() {
-		ia, ok := ref.(*ssa.IndexAddr)
-		if !ok {
-			continue
-		}
-		for _, r2 := range *ia.Referrers() {
-			st, ok := r2.(*ssa.Store)
-			if !ok || st.Addr != ssa.Value(ia) {
-				continue
-			}
-			cons := pre + "constant term is the secret"
-			if k, isK := an.ConstInt(ia.Index); isK {
-				if k != 0 {
-					continue
-				}
-				constTerm++
-				pA := c08LoadOf(st.Val)
-				w, stt, why := c08SoleWriter(pA, st, "Deserialize")
-				if stt != "ok" {
-					c08Record(c, cons, st.Pos(), stt, "poly[0]: "+why)
-					continue
-				}
-				src, full := c08BytesSrc(w.Call.Args[1])
-				switch {
-				case src == ssa.Value(secret) && full && an.Dominates(st, set):
-					c.Good(cons, st.Pos(), "")
-				case src == ssa.Value(secret) && full:
-					c.Bad(cons, st.Pos(), "poly[0] is not set on every path to the evaluation")
-				case src == nil:
-					c.Unsure(cons, st.Pos(), "cannot resolve the bytes poly[0] is deserialised from")
-				default:
-					c.Bad(cons, st.Pos(), "poly[0] is not deserialised from the whole secret parameter")
-				}
-				continue
-			}
-			// coefficient loop: must not touch index 0
-			ct := c08CounterOf(fn, an.Unwrap(ia.Index))
-			if ct == nil {
-				c.Unsure(cons+" (coefficient loop)", st.Pos(), "polynomial is written at an index this rule cannot resolve")
-				continue
-			}
-			k, isK := an.ConstInt(ct.Start)
-			switch {
-			case isK && k >= 1 && ct.StepsOne:
-				c.Good(cons+" (coefficient loop)", st.Pos(), "")
-			case isK && k < 1:
-				c.Bad(cons+" (coefficient loop)", st.Pos(), "the coefficient loop starts at "+ct.Start.Name()+" and overwrites poly[0]: the shares no longer belong to the given secret")
-			default:
-				c.Unsure(cons+" (coefficient loop)", st.Pos(), "cannot bound the indices written by the coefficient loop")
-			}
-		}
-	}
-	if constTerm == 0 {
-		c.Bad(pre+"constant term is the secret", mk.Pos(), "poly[0] is never assigned: the shares do not belong to the given secret")
-	}
-}
 
 func c08Record(c *rt.Ctx, construct string, pos token.Pos, status, why string) {
 	switch status {
@@ -693,22 +1078,391 @@ func c08Record(c *rt.Ctx, construct string, pos token.Pos, status, why string) {
 	}
 }
 
-// ---------------------------------------------------------------------------------------------
-// S1: recover side
-
-// c08RangeNext returns the Next instruction of a map range loop and the ranged collection.
-func c08RangeNext(l *an.Loop) *ssa.Next {
-	for _, in := range l.Header.Instrs {
-		if nx, ok := in.(*ssa.Next); ok {
-			return nx
+// c08Returns is c09Returns (results resolved through the spill slots that defer introduces) that keeps the plain
+// value where the result is a load of an ordinary local (`return id, err` of a `var id bls.ID`).
+func c08Returns(fn *ssa.Function) []c09Ret {
+	out := c09Returns(fn)
+	for i := range out {
+		for j := range out[i].Vals {
+			if out[i].Vals[j] == nil && j < len(out[i].Ret.Results) {
+				out[i].Vals[j], out[i].Sink[j] = out[i].Ret.Results[j], out[i].Ret
+			}
 		}
 	}
-	return nil
+	return out
 }
+
+// c08NilErrReturns lists the returns of fn that commit a nil error (constant nil, or an error value on its own
+// nil edge), with the resolved result values.
+func c08NilErrReturns(fn *ssa.Function) []c09Ret {
+	var out []c09Ret
+	for _, r := range c08Returns(fn) {
+		n := len(r.Vals)
+		if n == 0 {
+			continue
+		}
+		e := r.Vals[n-1]
+		if e != nil && (an.IsNilConst(e) || c08NilEdge(fn, e, r.Sink[n-1])) {
+			out = append(out, r)
+		}
+	}
+	return out
+}
+
+func c08Split(c *rt.Ctx, name string) {
+	fn := c.Fn("tbls.Herumi." + name)
+	pre := name + " "
+	uints := c08ParamsOf(fn, c08IsUint)
+	secrets := c08ParamsOf(fn, func(t types.Type) bool { return an.TypeName(t) == "tbls.PrivateKey" })
+	if len(uints) != 2 || len(secrets) != 1 {
+		c.Bail("%s: expected parameters (secret PrivateKey, total uint, threshold uint)", an.FuncName(fn))
+	}
+	total, threshold, secret := uints[0], uints[1], secrets[0]
+
+	// the map handed out with a nil error
+	var retMap ssa.Value
+	for _, r := range c08NilErrReturns(fn) {
+		if len(r.Vals) != 2 || r.Vals[0] == nil {
+			c.Bail("%s: unexpected results", an.FuncName(fn))
+		}
+		m := an.Resolve(r.Vals[0])
+		if retMap != nil && retMap != m {
+			c.Bail("%s: several result maps", an.FuncName(fn))
+		}
+		retMap = m
+	}
+	if retMap == nil {
+		c.Bail("%s: no successful return found", an.FuncName(fn))
+	}
+	if _, ok := retMap.(*ssa.MakeMap); !ok {
+		c.Bail("%s: the result map is not made in this function", an.FuncName(fn))
+	}
+	ups := mapUpdates(fn, func(m ssa.Value) bool { return an.Resolve(m) == retMap })
+	if len(ups) == 0 {
+		c.Bail("%s: no insertion into the returned map found", an.FuncName(fn))
+	}
+	for _, up := range ups {
+		if up.Parent() != fn {
+			c.Unsure(pre+"stored share is the evaluated key", posOf(up), "the result map is filled inside a function literal")
+			continue
+		}
+		// (1) the stored share is the serialisation of a key evaluated by Set, error checked
+		recv := c08SerializedRecv(up.Value)
+		if recv == nil {
+			c.Unsure(pre+"stored share is the evaluated key", posOf(up), "stored value is not the serialisation of a herumi key")
+			continue
+		}
+		sk := c08Top(recv, up, nil, "Set")
+		c08Record(c, pre+"stored share is the evaluated key", posOf(up), sk.St, sk.Why)
+		if sk.St != "ok" {
+			continue
+		}
+		set, sf := sk.P.W, sk.P.F
+		if len(set.Call.Args) != 3 {
+			c.Bail("%s: bls.SecretKey.Set: unexpected arity", an.FuncName(fn))
+		}
+		// (2) identifier = Itoa(share-loop counter + constant), values 1..total, share stored under it
+		c08SplitIDs(c, pre, fn, up, set, sf, total, threshold)
+		// (3) polynomial: `threshold` coefficients, constant term the secret, never overwritten
+		c08SplitPoly(c, pre, fn, set, sf, total, threshold, secret)
+	}
+}
+
+func c08SplitIDs(c *rt.Ctx, pre string, fn *ssa.Function, up *ssa.MapUpdate, set *ssa.Call, sf *c08Frame, total, threshold *ssa.Parameter) {
+	cons := pre + "identifier is the loop variable"
+	x, ok := c08DecID(c, cons, set.Call.Args[2], set, sf)
+	if !ok {
+		return
+	}
+	inner := an.InnermostLoop(fn, up.Block())
+	var ct *c08Counter
+	if !x.isConst() && x.Base.F == nil {
+		ct = c08CounterOf(x.Base.V)
+	}
+	switch {
+	case ct != nil && ct.unit() && inner != nil && ct.Loop.Header == inner.Header:
+		c.Good(cons, set.Pos(), "SetDecString(strconv.Itoa(counter"+fmt.Sprintf("%+d", x.K)+")) of the share loop's counter, error checked")
+	case ct != nil && ct.Step == 0:
+		c.Unsure(pre+"identifiers are consecutive", ct.Phi.Pos(), "cannot tell by how much the share loop advances the identifier")
+		return
+	case ct != nil && !ct.unit() && inner != nil && ct.Loop.Header == inner.Header:
+		c.Bad(pre+"identifiers are consecutive", ct.Phi.Pos(), fmt.Sprintf("the share loop advances the identifier by %d, not by 1", ct.Step))
+		return
+	case ct != nil && inner != nil && ct.Loop.Body[inner.Header]:
+		c.Bad(cons, set.Pos(), "the identifier is the counter of an outer loop: several shares of the inner loop get the same identifier")
+		return
+	case ct != nil:
+		c.Unsure(cons, set.Pos(), "the identifier is the counter of a loop that is not the loop storing the shares")
+		return
+	default:
+		var want c08Val
+		if inner != nil {
+			for _, in := range inner.Header.Instrs {
+				if p, ok := in.(*ssa.Phi); ok && c08CounterOf(p) != nil && c08Mentions(x.Base.V, x.Base.F, c08Val{V: p}, 0) {
+					want = c08Val{V: p}
+				}
+			}
+		}
+		if bad, why := c08DefinitelyNot(x, want); bad {
+			c.Bad(cons, set.Pos(), why)
+		} else {
+			c.Unsure(cons, set.Pos(), "cannot relate the identifier to the counter of the share loop")
+		}
+		return
+	}
+	c.Check(pre+"identifiers are consecutive", ct.Phi.Pos(), true, "")
+	rng, ok := c08CounterRange(ct, x.K)
+	if !ok {
+		c.Unsure(pre+"identifiers start at 1", ct.Phi.Pos(), "the condition of the share loop is not understood")
+		c.Unsure(pre+"identifiers run to total", ct.Phi.Pos(), "the condition of the share loop is not understood")
+	} else {
+		tot, thr := c08Val{V: total}, c08Val{V: threshold}
+		switch {
+		case rng.Lo.isConst() && rng.Lo.K == 1:
+			c.Good(pre+"identifiers start at 1", ct.Phi.Pos(), "")
+		case rng.Lo.isConst():
+			c.Bad(pre+"identifiers start at 1", ct.Phi.Pos(), fmt.Sprintf("the smallest identifier is %d: identifiers must be 1..total (identifier 0 evaluates the polynomial at 0, i.e. hands out the secret itself)", rng.Lo.K))
+		default:
+			c.Unsure(pre+"identifiers start at 1", ct.Phi.Pos(), "the smallest identifier is not a constant")
+		}
+		switch {
+		case !rng.Hi.isConst() && c08Same(rng.Hi.Base, tot) && rng.Hi.K == 0:
+			c.Good(pre+"identifiers run to total", rng.Pos, "")
+		case !rng.Hi.isConst() && c08Same(rng.Hi.Base, tot) && rng.Hi.K < 0:
+			c.Bad(pre+"identifiers run to total", rng.Pos, "the share loop stops before identifier `total`: fewer than total shares are produced")
+		case !rng.Hi.isConst() && c08Same(rng.Hi.Base, tot):
+			c.Bad(pre+"identifiers run to total", rng.Pos, "the share loop runs past identifier `total`")
+		case !rng.Hi.isConst() && c08Same(rng.Hi.Base, thr):
+			c.Bad(pre+"identifiers run to total", rng.Pos, "the share loop is bounded by threshold instead of total")
+		case rng.Hi.isConst():
+			c.Bad(pre+"identifiers run to total", rng.Pos, "the share loop is bounded by a constant instead of total")
+		default:
+			c.Unsure(pre+"identifiers run to total", rng.Pos, "cannot relate the loop bound to the total parameter")
+		}
+	}
+	// the share is stored under the identifier it was evaluated at
+	key := c08LinOf(up.Key, nil)
+	switch {
+	case c08LinEq(key, x):
+		c.Good(pre+"share stored under its identifier", posOf(up), "")
+	case !key.isConst() && c08Same(key.Base, x.Base):
+		c.Bad(pre+"share stored under its identifier", posOf(up), fmt.Sprintf("map key differs from the identifier the share was evaluated at (key = identifier%+d)", key.K-x.K))
+	default:
+		if bad, why := c08DefinitelyNot(key, x.Base); bad {
+			c.Bad(pre+"share stored under its identifier", posOf(up), "map key differs from the identifier the share was evaluated at: "+why)
+		} else {
+			c.Unsure(pre+"share stored under its identifier", posOf(up), "cannot relate the map key to the identifier")
+		}
+	}
+}
+
+// c08NonZeroAt: index expression idx (anchor frame) cannot be 0 at instruction `at`: a non-zero constant, a counter
+// whose range excludes 0, or a dominating branch on the index that excludes 0. definitelyZero is set when the index is a
+// counter whose range includes 0 and no branch protects the instruction.
+func c08NonZeroAt(fn *ssa.Function, idx ssa.Value, at ssa.Instruction) (nonZero, includesZero bool) {
+	ct, off, lin := c08IndexForm(idx, nil)
+	if lin.isConst() {
+		return lin.K != 0, lin.K == 0
+	}
+	// a dominating branch on the index value (or on its counter) that excludes 0
+	excl := func(v ssa.Value, k int64) bool {
+		// v + k is the index; need v != -k
+		target := -k
+		for _, cd := range an.CondsOn(fn, v) {
+			if cd.Other == nil {
+				continue
+			}
+			cv, isK := an.ConstInt(cd.Other)
+			if !isK {
+				continue
+			}
+			for _, truth := range []bool{true, false} {
+				op := cd.Op
+				if !truth {
+					switch op {
+					case token.EQL:
+						op = token.NEQ
+					case token.NEQ:
+						op = token.EQL
+					case token.LSS:
+						op = token.GEQ
+					case token.LEQ:
+						op = token.GTR
+					case token.GTR:
+						op = token.LEQ
+					case token.GEQ:
+						op = token.LSS
+					}
+				}
+				implies := false
+				switch op { // (v op cv) ⇒ v != target
+				case token.EQL:
+					implies = cv != target
+				case token.NEQ:
+					implies = cv == target
+				case token.LSS:
+					implies = target >= cv
+				case token.LEQ:
+					implies = target > cv
+				case token.GTR:
+					implies = target <= cv
+				case token.GEQ:
+					implies = target < cv
+				}
+				if !implies {
+					continue
+				}
+				succ := cd.Succ(truth)
+				if len(succ.Preds) == 1 && (succ == at.Block() || succ.Dominates(at.Block())) {
+					return true
+				}
+			}
+		}
+		return false
+	}
+	if excl(an.Unwrap(idx), 0) || (lin.Base.F == nil && excl(lin.Base.V, lin.K)) {
+		return true, false
+	}
+	if ct != nil {
+		if rng, ok := c08CounterRange(ct, off); ok && rng.Lo.isConst() {
+			if rng.Lo.K >= 1 {
+				return true, false
+			}
+			return false, true
+		}
+	}
+	return false, false
+}
+
+func c08SplitPoly(c *rt.Ctx, pre string, fn *ssa.Function, set *ssa.Call, sf *c08Frame, total, threshold, secret *ssa.Parameter) {
+	poly := c08Lift(set.Call.Args[1], sf)
+	// the instruction of the anchor function at which the polynomial is consumed
+	var consume ssa.Instruction = set
+	for f := sf; f != nil; f = f.up {
+		consume = f.call
+	}
+	mk, ok := poly.V.(*ssa.MakeSlice)
+	if !ok || poly.F != nil || mk.Parent() != fn {
+		c.Unsure(pre+"polynomial has threshold coefficients", set.Pos(), "polynomial operand of Set is not a slice made in this function")
+		return
+	}
+	ln := c08LinOf(mk.Len, nil)
+	switch {
+	case !ln.isConst() && ln.Base.V == ssa.Value(threshold) && ln.K == 0:
+		c.Good(pre+"polynomial has threshold coefficients", mk.Pos(), "")
+	case !ln.isConst() && ln.Base.V == ssa.Value(total):
+		c.Bad(pre+"polynomial has threshold coefficients", mk.Pos(), "the polynomial has `total` coefficients: total (not threshold) shares are needed to recover")
+	case !ln.isConst() && ln.Base.V == ssa.Value(threshold):
+		c.Bad(pre+"polynomial has threshold coefficients", mk.Pos(), fmt.Sprintf("the polynomial has threshold%+d coefficients: the number of shares needed to recover is not the threshold", ln.K))
+	case ln.isConst():
+		c.Bad(pre+"polynomial has threshold coefficients", mk.Pos(), "polynomial length is a constant, not the threshold parameter")
+	default:
+		c.Unsure(pre+"polynomial has threshold coefficients", mk.Pos(), "cannot relate the polynomial length to the threshold parameter")
+	}
+	cons := pre + "constant term is the secret"
+	var zeroStores []*ssa.Store
+	type other struct {
+		at  ssa.Instruction // the store, or the herumi method that writes the coefficient in place
+		idx ssa.Value
+	}
+	var others []other
+	for _, ref := range *mk.Referrers() {
+		switch x := ref.(type) {
+		case *ssa.DebugRef:
+		case *ssa.IndexAddr:
+			for _, r2 := range *x.Referrers() {
+				switch y := r2.(type) {
+				case *ssa.DebugRef:
+				case *ssa.UnOp: // read of a coefficient
+				case *ssa.Store:
+					if y.Addr != ssa.Value(x) {
+						c.Unsure(cons, y.Pos(), "the address of a coefficient is stored")
+						return
+					}
+					if k, isK := an.ConstInt(x.Index); isK && k == 0 {
+						zeroStores = append(zeroStores, y)
+					} else {
+						others = append(others, other{y, x.Index})
+					}
+				case *ssa.Call:
+					_, m, isBLS := c08BLSMethod(&y.Call)
+					if !isBLS {
+						c.Unsure(cons, y.Pos(), "the address of a coefficient is passed to a call this rule does not follow")
+						return
+					}
+					if len(y.Call.Args) > 0 && y.Call.Args[0] == ssa.Value(x) && !c08Readers[m] {
+						// coefficient written in place (poly[i].SetByCSPRNG())
+						others = append(others, other{y, x.Index})
+					}
+				default:
+					c.Unsure(cons, r2.Pos(), "a coefficient is used in a way this rule does not model")
+					return
+				}
+			}
+		case *ssa.Call:
+			if ssa.Instruction(x) == consume || c08IsLenCall(x) {
+				continue
+			}
+			if _, m, isBLS := c08BLSMethod(&x.Call); isBLS && m == "Set" {
+				continue
+			}
+			c.Unsure(cons, x.Pos(), "the polynomial is handed to "+an.CalleeName(&x.Call)+", which this rule does not follow")
+			return
+		case *ssa.Slice:
+			c.Unsure(cons, ref.Pos(), "the polynomial is re-sliced")
+			return
+		default:
+			c.Unsure(cons, ref.Pos(), "the polynomial is used in a way this rule does not model")
+			return
+		}
+	}
+	if len(zeroStores) == 0 {
+		c.Bad(cons, mk.Pos(), "poly[0] is never assigned: the shares do not belong to the given secret")
+		return
+	}
+	var s0 *ssa.Store
+	for _, st := range zeroStores {
+		res := c08Top(st.Val, st, nil, "Deserialize")
+		if res.St != "ok" {
+			c08Record(c, cons, st.Pos(), res.St, "poly[0]: "+res.Why)
+			continue
+		}
+		src, full, ok := c08BytesSrc(res.P.W.Call.Args[1], res.P.F)
+		switch {
+		case !ok:
+			c.Unsure(cons, st.Pos(), "cannot resolve the bytes poly[0] is deserialised from")
+		case src.F == nil && src.V == ssa.Value(secret) && full && an.Dominates(st, consume):
+			c.Good(cons, st.Pos(), "")
+			s0 = st
+		case src.F == nil && src.V == ssa.Value(secret) && full:
+			c.Bad(cons, st.Pos(), "poly[0] is not set on every path to the evaluation")
+		default:
+			c.Bad(cons, st.Pos(), "poly[0] is not deserialised from the whole secret parameter")
+		}
+	}
+	// every other write between the constant term and the evaluation must leave index 0 alone
+	for _, o := range others {
+		k := cons + " (coefficient loop)"
+		nz, incl := c08NonZeroAt(fn, o.idx, o.at)
+		switch {
+		case nz:
+			c.Good(k, o.at.Pos(), "")
+		case s0 != nil && !(an.InstrReaches(s0, o.at) && an.InstrReaches(o.at, consume)):
+			c.Good(k, o.at.Pos(), "written before the constant term is set")
+		case incl && s0 != nil:
+			c.Bad(k, o.at.Pos(), "a coefficient write that includes index 0 follows the assignment of the secret and overwrites poly[0]: the shares no longer belong to the given secret")
+		default:
+			c.Unsure(k, o.at.Pos(), "polynomial is written at an index this rule cannot bound")
+		}
+	}
+}
+
+// ---------------------------------------------------------------------------------------------
+// lists filled by a loop
 
 // c08EmptyList: nil, or make([]T, 0[, cap]).
 func c08EmptyList(v ssa.Value) bool {
-	switch x := v.(type) {
+	switch x := an.Resolve(v).(type) {
 	case *ssa.Const:
 		return x.Value == nil
 	case *ssa.MakeSlice:
@@ -761,6 +1515,321 @@ func c08AccumPhi(fn *ssa.Function, v ssa.Value) (hdr *ssa.Phi, early bool) {
 	return hdr, hdr != nil
 }
 
+// c08Put is one place where a loop iteration puts an element into a list.
+type c08Put struct {
+	Elem ssa.Value       // the element value
+	At   ssa.Instruction // the append call / the store
+	Pred int             // append form: index of the back edge (predecessor of the header) that carries it
+}
+
+// c08Fill describes how a list is filled by one loop.
+type c08Fill struct {
+	Kind  string // "append" | "index"
+	Loop  *an.Loop
+	Phi   *ssa.Phi       // append form: the accumulator
+	Early bool           // append form: the list can leave the loop through a break after an append
+	Make  *ssa.MakeSlice // index form
+	Index ssa.Value      // index form: the index expression of the single store
+	Puts  []c08Put       // append form: one per back edge that appends; index form: the single store
+	Skips []int          // append form: back edges that leave the list unchanged
+	Odd   string         // a back edge / use that is not understood (=> undecided)
+	Start bool           // append form: the list is empty when the loop starts
+}
+
+// c08FillOf recognises how list value v (anchor function fn) is filled.
+func c08FillOf(fn *ssa.Function, v ssa.Value) *c08Fill {
+	v = an.Resolve(v)
+	if phi, early := c08AccumPhi(fn, v); phi != nil {
+		l := c08LoopAt(fn, phi.Block())
+		if l == nil {
+			return nil
+		}
+		fl := &c08Fill{Kind: "append", Loop: l, Phi: phi, Early: early, Start: true}
+		for j, pred := range l.Header.Preds {
+			e := phi.Edges[j]
+			if !l.Body[pred] {
+				if !c08EmptyList(e) {
+					fl.Start = false
+				}
+				continue
+			}
+			if e == ssa.Value(phi) {
+				fl.Skips = append(fl.Skips, j)
+				continue
+			}
+			ap, elems := c08IsAppendTo(e, phi)
+			if ap == nil || len(elems) != 1 {
+				fl.Odd = "a back edge of the loop does not carry append(list, one element)"
+				continue
+			}
+			fl.Puts = append(fl.Puts, c08Put{Elem: elems[0], At: ap, Pred: j})
+		}
+		return fl
+	}
+	mk, ok := v.(*ssa.MakeSlice)
+	if !ok || mk.Parent() != fn {
+		return nil
+	}
+	fl := &c08Fill{Kind: "index", Make: mk}
+	for _, ref := range *mk.Referrers() {
+		switch x := ref.(type) {
+		case *ssa.DebugRef:
+		case *ssa.IndexAddr:
+			for _, r2 := range *x.Referrers() {
+				switch y := r2.(type) {
+				case *ssa.DebugRef:
+				case *ssa.Store:
+					if y.Addr != ssa.Value(x) || len(fl.Puts) > 0 {
+						fl.Odd = "the list is written at more than one place"
+						continue
+					}
+					fl.Puts = append(fl.Puts, c08Put{Elem: y.Val, At: y})
+					fl.Index = x.Index
+				default:
+					fl.Odd = "an element of the list is used before the list is complete"
+				}
+			}
+		case *ssa.Call:
+			if !c08IsLenCall(x) {
+				if _, _, isBLS := c08BLSMethod(&x.Call); !isBLS {
+					fl.Odd = "the list is handed to " + an.CalleeName(&x.Call)
+				}
+			}
+		default:
+			fl.Odd = "the list is used in a way this rule does not model"
+		}
+	}
+	if len(fl.Puts) == 1 {
+		fl.Loop = an.InnermostLoop(fn, fl.Puts[0].At.Block())
+	}
+	if fl.Loop == nil && fl.Odd == "" {
+		fl.Odd = "the list is not filled inside a loop"
+	}
+	return fl
+}
+
+// c08ExitReaches reports a block of loop l other than its header from which the loop is left and `sink` is then still
+// reached, deciding branches on what the exit establishes: an error that is non-nil on the exit edge stays non-nil in
+// the variable it is kept in (`firstErr = err; break` ... `if firstErr != nil { return }` does not reach the sink),
+// a flag set before the break is known after the loop. nil if the loop is only left towards sink at its header.
+func c08ExitReaches(l *an.Loop, sink ssa.Instruction) *ssa.BasicBlock {
+	for _, b := range l.Header.Parent().Blocks {
+		if !l.Body[b] || b == l.Header || len(b.Instrs) == 0 {
+			continue
+		}
+		for _, s := range b.Succs {
+			if l.Body[s] {
+				continue
+			}
+			term := b.Instrs[len(b.Instrs)-1]
+			// what the branches dominating the exit establish (also about values computed inside the loop: the search
+			// only goes on outside of it)
+			truths := map[ssa.Value]bool{}
+			for cur, d := b, b.Idom(); d != nil; cur, d = d, d.Idom() {
+				iff, ok := d.Instrs[len(d.Instrs)-1].(*ssa.If)
+				if !ok || len(d.Succs) != 2 || d.Succs[0] == d.Succs[1] {
+					continue
+				}
+				var truth bool
+				switch {
+				case len(d.Succs[0].Preds) == 1 && (d.Succs[0] == cur || d.Succs[0].Dominates(cur)):
+					truth = true
+				case len(d.Succs[1].Preds) == 1 && (d.Succs[1] == cur || d.Succs[1].Dominates(cur)):
+					truth = false
+				default:
+					continue
+				}
+				cond := iff.Cond
+				for {
+					if u, ok := cond.(*ssa.UnOp); ok && u.Op == token.NOT {
+						cond, truth = u.X, !truth
+						continue
+					}
+					break
+				}
+				if _, dup := truths[cond]; !dup {
+					truths[cond] = truth
+				}
+			}
+			facts := func(v ssa.Value) (constant.Value, bool) {
+				if t, ok := truths[v]; ok {
+					return constant.MakeBool(t), true
+				}
+				return nil, false
+			}
+			nonNil := func(v ssa.Value) bool {
+				refs := v.Referrers()
+				if refs == nil {
+					return false
+				}
+				for _, r := range *refs {
+					bin, ok := r.(*ssa.BinOp)
+					if !ok || (bin.Op != token.NEQ && bin.Op != token.EQL) || !(an.IsNilConst(bin.X) || an.IsNilConst(bin.Y)) {
+						continue
+					}
+					truth, known := facts(bin)
+					if iff, isIf := term.(*ssa.If); isIf && !known {
+						// the exit edge itself is a branch on the comparison
+						cond, neg := iff.Cond, false
+						for {
+							if u, ok := cond.(*ssa.UnOp); ok && u.Op == token.NOT {
+								cond, neg = u.X, !neg
+								continue
+							}
+							break
+						}
+						if cond == ssa.Value(bin) {
+							onTrue := b.Succs[0] == s
+							truth, known = constant.MakeBool(onTrue != neg), true
+						}
+					}
+					if known && truth.Kind() == constant.Bool && constant.BoolVal(truth) == (bin.Op == token.NEQ) {
+						return true
+					}
+				}
+				return false
+			}
+			env := func(v ssa.Value) (constant.Value, bool) {
+				if k, ok := facts(v); ok {
+					return k, true
+				}
+				if _, isConst := v.(*ssa.Const); !isConst && an.IsErrorType(v.Type()) {
+					if c08NonNilErr(v) || nonNil(v) {
+						return an.H06NonNil, true
+					}
+				}
+				return nil, false
+			}
+			edge := s
+			_, found := an.H06Escape(term, an.H06Opt{
+				Env:       env,
+				Target:    sink,
+				Inclusive: true,
+				Prune: func(bb *ssa.BasicBlock, si int) bool {
+					return bb == b && bb.Succs[si] != edge
+				},
+			})
+			if found {
+				return b
+			}
+		}
+	}
+	return nil
+}
+
+// c08LenOf: v is len(coll) of the given collection.
+func c08LenOf(v ssa.Value, coll ssa.Value) bool {
+	call, ok := an.Resolve(v).(*ssa.Call)
+	if !ok {
+		return false
+	}
+	b, ok := call.Call.Value.(*ssa.Builtin)
+	return ok && b.Name() == "len" && len(call.Call.Args) == 1 && an.Resolve(call.Call.Args[0]) == coll
+}
+
+// c08EveryIteration: instruction in lies on every path of an iteration of loop l that reaches a latch.
+func c08EveryIteration(l *an.Loop, in ssa.Instruction) bool {
+	if !l.Body[in.Block()] {
+		return false
+	}
+	for _, la := range l.Latches {
+		if in.Block() != la && !in.Block().Dominates(la) {
+			return false
+		}
+	}
+	return true
+}
+
+// c08MapRange: loop l ranges over map m; returns the key and value of the iteration.
+func c08MapRange(l *an.Loop, m ssa.Value) (key, val ssa.Value, ok bool) {
+	var nx *ssa.Next
+	for _, in := range l.Header.Instrs {
+		if n, isNext := in.(*ssa.Next); isNext {
+			nx = n
+		}
+	}
+	if nx == nil {
+		return nil, nil, false
+	}
+	r, isRange := nx.Iter.(*ssa.Range)
+	if !isRange || an.Resolve(r.X) != m {
+		return nil, nil, false
+	}
+	for _, ref := range *nx.Referrers() {
+		if ex, isEx := ref.(*ssa.Extract); isEx {
+			switch ex.Index {
+			case 1:
+				key = ex
+			case 2:
+				val = ex
+			}
+		}
+	}
+	return key, val, true
+}
+
+// c08Descend: when every list is a result of one call of an in-package helper (the filling loop was extracted), the
+// helper becomes the function to analyse: the lists are its results on its single successful return, the input is the
+// parameter that receives the caller's input, the lists are complete at that return; the helper's error must be
+// checked by the caller before the lists are consumed. st is "" when there is nothing to descend into.
+func c08Descend(fn *ssa.Function, consume ssa.Instruction, input ssa.Value, lists []ssa.Value) (*ssa.Function, ssa.Instruction, ssa.Value, []ssa.Value, string, string) {
+	var call *ssa.Call
+	idx := make([]int, len(lists))
+	for i, v := range lists {
+		v = an.Resolve(v)
+		var cl *ssa.Call
+		switch x := v.(type) {
+		case *ssa.Extract:
+			cl, _ = x.Tuple.(*ssa.Call)
+			idx[i] = x.Index
+		case *ssa.Call:
+			cl = x
+		}
+		if cl == nil || (call != nil && cl != call) {
+			return fn, consume, input, lists, "", ""
+		}
+		call = cl
+	}
+	g := c08InPkgCallee(call)
+	if g == nil || g == fn {
+		return fn, consume, input, lists, "", ""
+	}
+	name := an.FuncName(g)
+	switch st, why := c08Checked(call, consume); st {
+	case "no":
+		return nil, nil, nil, nil, "bad", "the error of " + name + " is not checked before its lists are used: " + why
+	case "unsure":
+		return nil, nil, nil, nil, "unsure", "error of " + name + ": " + why
+	}
+	var pin ssa.Value
+	for i, a := range call.Call.Args {
+		if an.Resolve(a) == input && i < len(g.Params) {
+			pin = g.Params[i]
+		}
+	}
+	if pin == nil {
+		return nil, nil, nil, nil, "unsure", name + " does not receive the input collection as an argument"
+	}
+	rets := c08NilErrReturns(g)
+	if c08ErrResult(g) < 0 {
+		rets = c08Returns(g)
+	}
+	if len(rets) != 1 {
+		return nil, nil, nil, nil, "unsure", name + " has several successful returns"
+	}
+	out := make([]ssa.Value, len(lists))
+	for i := range lists {
+		if idx[i] >= len(rets[0].Vals) || rets[0].Vals[idx[i]] == nil {
+			return nil, nil, nil, nil, "unsure", "a result of " + name + " cannot be resolved"
+		}
+		out[i] = rets[0].Vals[idx[i]]
+	}
+	return g, rets[0].Ret, pin, out, "ok", ""
+}
+
+// ---------------------------------------------------------------------------------------------
+// S1: recover side
+
 func c08Recover(c *rt.Ctx, name, typ string) {
 	fn := c.Fn("tbls.Herumi." + name)
 	pre := name + " "
@@ -768,136 +1837,221 @@ func c08Recover(c *rt.Ctx, name, typ string) {
 	if len(maps) != 1 {
 		c.Bail("%s: expected exactly one map parameter", an.FuncName(fn))
 	}
-	input := maps[0]
-	rec := c.OneCall(fn, an.Static(c08BLSName(typ, "Recover")), "bls."+typ+".Recover", false).(*ssa.Call)
-	if len(rec.Call.Args) != 3 {
-		c.Bail("%s: Recover: unexpected arity", an.FuncName(fn))
+	inputP := maps[0]
+
+	// result: the value handed out with a nil error is the serialisation of the receiver of a checked Recover
+	cons := pre + "result is the recovered value"
+	var rec *ssa.Call
+	var rf *c08Frame
+	rets := c08NilErrReturns(fn)
+	if len(rets) == 0 {
+		c.Bail("%s: no return with a nil error found", an.FuncName(fn))
 	}
-	pv, earlyV := c08AccumPhi(fn, rec.Call.Args[1])
-	pi, earlyI := c08AccumPhi(fn, rec.Call.Args[2])
+	for _, r := range rets {
+		if len(r.Vals) != 2 || r.Vals[0] == nil {
+			c.Bail("%s: unexpected results", an.FuncName(fn))
+		}
+		recv := c08SerializedRecv(r.Vals[0])
+		if recv == nil {
+			c.Unsure(cons, posOf(r.Ret), "the value returned with a nil error is not the serialisation of a herumi value")
+			continue
+		}
+		res := c08Top(recv, r.Sink[0], nil, "Recover")
+		c08Record(c, cons, posOf(r.Ret), res.St, res.Why)
+		if res.St == "ok" {
+			if rec != nil && rec != res.P.W {
+				c.Bail("%s: several Recover calls", an.FuncName(fn))
+			}
+			rec, rf = res.P.W, res.P.F
+		}
+	}
+	if rec == nil {
+		return
+	}
+	if t, m, _ := c08BLSMethod(&rec.Call); t != typ || m != "Recover" || len(rec.Call.Args) != 3 {
+		c.Bail("%s: expected bls.%s.Recover(values, ids)", an.FuncName(fn), typ)
+	}
+	// the point of the anchor function at which the lists are consumed
+	var consume ssa.Instruction = rec
+	for f := rf; f != nil; f = f.up {
+		consume = f.call
+	}
+	vals, ids := c08Lift(rec.Call.Args[1], rf), c08Lift(rec.Call.Args[2], rf)
 	pair := pre + "identifier and value appended in the same iteration"
-	if pv == nil || pi == nil || pv.Block() != pi.Block() {
-		c.Unsure(pair, rec.Pos(), "the two lists handed to Recover are not accumulated by one loop")
+	if vals.F != nil || ids.F != nil {
+		c.Unsure(pair, rec.Pos(), "the lists handed to Recover are built inside a helper")
 		return
 	}
-	if earlyV || earlyI {
-		c.Bad(pre+"every input share is used", rec.Pos(), "the loop over the input shares can be left early towards Recover: only a prefix (in random map order) is combined")
+	// the filling loop may live in a helper that hands both lists back
+	lfn, input := fn, ssa.Value(inputP)
+	if g, cons2, in2, ls, st, why := c08Descend(fn, consume, input, []ssa.Value{vals.V, ids.V}); st == "ok" {
+		lfn, consume, input, vals.V, ids.V = g, cons2, in2, ls[0], ls[1]
+	} else if st != "" {
+		c08Record(c, pair, rec.Pos(), st, why)
 		return
 	}
-	l := c08LoopAt(fn, pv.Block())
-	if l == nil {
-		c.Unsure(pair, rec.Pos(), "the two lists handed to Recover are not accumulated by one loop")
+	fv, fi := c08FillOf(lfn, vals.V), c08FillOf(lfn, ids.V)
+	if fv == nil || fi == nil || fv.Kind != fi.Kind || fv.Loop == nil || fi.Loop == nil || fv.Loop.Header != fi.Loop.Header {
+		c.Unsure(pair, rec.Pos(), "the two lists handed to Recover are not filled by one loop")
 		return
 	}
-	nx := c08RangeNext(l)
-	if nx == nil || l.RangeColl() != ssa.Value(input) {
+	if fv.Odd != "" || fi.Odd != "" {
+		c.Unsure(pair, rec.Pos(), fv.Odd+fi.Odd)
+		return
+	}
+	l := fv.Loop
+	used := pre + "every input share is used"
+	if (fv.Early || fi.Early) && c08ExitReaches(l, consume) != nil {
+		c.Bad(used, rec.Pos(), "the loop over the input shares can be left early towards Recover: only a prefix (in random map order) is combined")
+		return
+	}
+	if l.Body[consume.Block()] || !l.Header.Dominates(consume.Block()) {
+		c.Unsure(pair, rec.Pos(), "Recover is not executed after the filling loop")
+		return
+	}
+	keyV, valV, isRange := c08MapRange(l, input)
+	if !isRange {
 		// a counting loop that reads input[counter] assumes the share identifiers are exactly 1..len(input):
 		// any subset with a gap silently uses zero values / skips real shares and recovers a wrong result
 		for b := range l.Body {
 			for _, in := range b.Instrs {
-				if lk, ok := in.(*ssa.Lookup); ok && lk.X == ssa.Value(input) {
-					c.Bad(pre+"every input share is used", lk.Pos(), "the shares are fetched by a counter (input[i] for i = 1..len) instead of ranging over the map: identifiers are assumed contiguous from 1, subsets with gaps combine zero values under wrong identifiers")
+				lk, ok := in.(*ssa.Lookup)
+				if !ok || an.Resolve(lk.X) != ssa.Value(input) {
+					continue
+				}
+				if ct, _, _ := c08IndexForm(lk.Index, nil); ct != nil && ct.Loop.Header == l.Header {
+					c.Bad(used, lk.Pos(), "the shares are fetched by a counter (input[i] for i = 1..len) instead of ranging over the map: identifiers are assumed contiguous from 1, subsets with gaps combine zero values under wrong identifiers")
 					return
 				}
 			}
 		}
-		c.Unsure(pair, rec.Pos(), "the accumulating loop does not range over the input map")
+		c.Unsure(used, rec.Pos(), "the filling loop does not range over the input map")
 		return
 	}
-	if l.Body[rec.Block()] || !l.Header.Dominates(rec.Block()) {
-		c.Unsure(pair, rec.Pos(), "Recover is not executed after the accumulating loop")
-		return
-	}
-	if b := an.C05LoopLeavesOnlyAtHeader(l, rec); b != nil {
-		c.Bad(pre+"every input share is used", posOf(b.Instrs[len(b.Instrs)-1]), "the loop over the input shares can be left early towards Recover: only a prefix (in random map order) is combined")
+	if b := c08ExitReaches(l, consume); b != nil {
+		c.Bad(used, posOf(b.Instrs[len(b.Instrs)-1]), "the loop over the input shares can be left early towards Recover: only a prefix (in random map order) is combined")
 	} else {
-		c.Good(pre+"every input share is used", rec.Pos(), "")
+		c.Good(used, rec.Pos(), "")
 	}
-	var keyEx, valEx ssa.Value
-	for _, ref := range *nx.Referrers() {
-		if ex, ok := ref.(*ssa.Extract); ok {
-			switch ex.Index {
-			case 1:
-				keyEx = ex
-			case 2:
-				valEx = ex
+
+	// pairing: an iteration extends both lists or neither, at the same position
+	type pairPut struct{ v, i c08Put }
+	var pairs []pairPut
+	switch fv.Kind {
+	case "append":
+		if !fv.Start || !fi.Start {
+			c.Unsure(pair, rec.Pos(), "the lists are not empty when the loop starts")
+		}
+		putOf := func(f *c08Fill, j int) *c08Put {
+			for k := range f.Puts {
+				if f.Puts[k].Pred == j {
+					return &f.Puts[k]
+				}
+			}
+			return nil
+		}
+		for j, pred := range l.Header.Preds {
+			if !l.Body[pred] {
+				continue
+			}
+			pv, pi := putOf(fv, j), putOf(fi, j)
+			pos := posOf(pred.Instrs[len(pred.Instrs)-1])
+			switch {
+			case pv == nil && pi == nil:
+				// iteration skipped for both lists alike
+			case pv == nil || pi == nil:
+				c.Bad(pair, pos, "an iteration can extend one of the two lists without the other: every later identifier is paired with the wrong share")
+			default:
+				c.Good(pair, pos, "")
+				pairs = append(pairs, pairPut{*pv, *pi})
 			}
 		}
-	}
-	for j, pred := range l.Header.Preds {
-		ev, ei := pv.Edges[j], pi.Edges[j]
-		if !l.Body[pred] {
-			if !c08EmptyList(ev) || !c08EmptyList(ei) {
-				c.Unsure(pair, rec.Pos(), "the lists are not empty when the loop starts")
-			}
-			continue
-		}
-		selfV, selfI := ev == ssa.Value(pv), ei == ssa.Value(pi)
-		if selfV && selfI {
-			continue // iteration skipped for both lists alike
-		}
-		av, elemsV := c08IsAppendTo(ev, pv)
-		ai, elemsI := c08IsAppendTo(ei, pi)
-		pos := posOf(pred.Instrs[len(pred.Instrs)-1])
+	case "index":
+		pv, pi := fv.Puts[0], fi.Puts[0]
+		ctV, offV, _ := c08IndexForm(fv.Index, nil)
+		ctI, offI, _ := c08IndexForm(fi.Index, nil)
 		switch {
-		case (selfV && ai != nil) || (selfI && av != nil):
-			c.Bad(pair, pos, "an iteration can extend one of the two lists without the other: every later identifier is paired with the wrong share")
-			continue
-		case av == nil || ai == nil || len(elemsV) != 1 || len(elemsI) != 1:
-			c.Unsure(pair, pos, "a back edge of the loop does not carry append(list, one element) for both lists")
-			continue
+		case ctV == nil || ctI == nil || ctV.Phi != ctI.Phi || ctV.Loop.Header != l.Header || ctV.Step != 1:
+			c.Unsure(pair, pv.At.Pos(), "the positions written in the two lists are not one counter of the filling loop")
+		case offV != offI:
+			c.Bad(pair, pv.At.Pos(), "identifier and value of an iteration are written at different positions of the two lists")
+		case !c08EveryIteration(l, pv.At) || !c08EveryIteration(l, pi.At):
+			c.Unsure(pair, pv.At.Pos(), "an iteration can advance the position without writing both lists")
+		case !c08LenOf(fv.Make.Len, input) || !c08LenOf(fi.Make.Len, input):
+			c.Unsure(pair, pv.At.Pos(), "the lists are not made with len(input) elements")
+		default:
+			if k, ok := an.ConstInt(ctV.Start); !ok || k+offV != 0 {
+				c.Unsure(pair, pv.At.Pos(), "the first position written is not 0")
+			} else {
+				c.Good(pair, pv.At.Pos(), "")
+				pairs = append(pairs, pairPut{pv, pi})
+			}
 		}
-		c.Good(pair, pos, "")
+	}
+	for _, pp := range pairs {
 		// identifier
 		cons := pre + "identifier is the map key"
-		if x := c08DecID(c, cons, c08LoadOf(elemsI[0]), ai); x != nil {
-			if keyEx != nil && x == keyEx {
-				c.Good(cons, ai.Pos(), "SetDecString(strconv.Itoa(key)) of the ranged map key, error checked")
-			} else if bad, why := c08DefinitelyNot(x, keyEx); bad {
-				c.Bad(cons, ai.Pos(), why)
-			} else {
-				c.Unsure(cons, ai.Pos(), "cannot relate the identifier to the key of the ranged map")
+		var idKey c08Val // the key the identifier is rendered from
+		if x, ok := c08DecID(c, cons, pp.i.Elem, pp.i.At, nil); ok {
+			switch {
+			case !x.isConst() && x.K == 0 && x.Base.F == nil && x.Base.V == keyV && keyV != nil:
+				c.Good(cons, pp.i.At.Pos(), "SetDecString(strconv.Itoa(key)) of the ranged map key, error checked")
+				idKey = x.Base
+			default:
+				if bad, why := c08DefinitelyNot(x, c08Val{V: keyV}); bad {
+					c.Bad(cons, pp.i.At.Pos(), why)
+				} else {
+					c.Unsure(cons, pp.i.At.Pos(), "cannot relate the identifier to the key of the ranged map")
+				}
 			}
 		}
 		// value
 		cons = pre + "value is the checked deserialisation of the map value"
-		w, st, why := c08SoleWriter(c08LoadOf(elemsV[0]), av, "Deserialize")
-		if st != "ok" {
-			c08Record(c, cons, av.Pos(), st, why)
+		res := c08Top(pp.v.Elem, pp.v.At, nil, "Deserialize")
+		if res.St != "ok" {
+			c08Record(c, cons, pp.v.At.Pos(), res.St, res.Why)
 			continue
 		}
-		src, full := c08BytesSrc(w.Call.Args[1])
+		src, full, ok := c08BytesSrc(res.P.W.Call.Args[1], res.P.F)
 		switch {
-		case src != nil && src == valEx && full:
-			c.Good(cons, av.Pos(), "")
-		case src == nil:
-			c.Unsure(cons, av.Pos(), "cannot resolve the bytes the share is deserialised from")
+		case !ok:
+			c.Unsure(cons, pp.v.At.Pos(), "cannot resolve the bytes the share is deserialised from")
+		case src.F == nil && valV != nil && src.V == valV && full:
+			c.Good(cons, pp.v.At.Pos(), "")
+		case src.F == nil && full && c08IsLookupOf(src.V, input, idKey):
+			c.Good(cons, pp.v.At.Pos(), "input[key] of the key the identifier is rendered from")
+		case src.F == nil && !full && (src.V == valV || c08IsLookupOf(src.V, input, idKey)):
+			c.Bad(cons, pp.v.At.Pos(), "the share is not deserialised from the whole map value of this iteration")
+		case src.F == nil && c08IsInputValue(src.V, input):
+			c.Bad(cons, pp.v.At.Pos(), "the share is deserialised from a map value that does not belong to the key of this iteration")
 		default:
-			c.Bad(cons, av.Pos(), "the share is not deserialised from the whole map value of this iteration")
+			c.Unsure(cons, pp.v.At.Pos(), "cannot relate the bytes the share is deserialised from to the map value of this iteration")
 		}
 	}
-	// result
-	cons := pre + "result is the recovered value"
-	n := 0
-	for _, r := range an.Returns(fn) {
-		if len(r.Results) != 2 || !an.IsNilConst(r.Results[1]) {
-			continue
-		}
-		n++
-		recv := c08SerializedRecv(r.Results[0])
-		switch {
-		case recv == nil:
-			c.Unsure(cons, posOf(r), "the value returned with a nil error is not the serialisation of a local")
-		case recv != c08Alloc(rec.Call.Args[0]):
-			c.Bad(cons, posOf(r), "the value returned with a nil error is not the receiver of Recover")
-		default:
-			_, st, why := c08SoleWriter(recv, r, "Recover")
-			c08Record(c, cons, posOf(r), st, why)
+}
+
+// c08IsLookupOf: v is m[key] (plain lookup) for the given key value.
+func c08IsLookupOf(v ssa.Value, m ssa.Value, key c08Val) bool {
+	lk, ok := v.(*ssa.Lookup)
+	if !ok || key.V == nil || key.F != nil || lk.CommaOk || an.Resolve(lk.X) != m {
+		return false
+	}
+	return an.Resolve(lk.Index) == key.V
+}
+
+// c08IsInputValue: v is some value of map m (a lookup or the value of a range over m).
+func c08IsInputValue(v ssa.Value, m ssa.Value) bool {
+	switch x := v.(type) {
+	case *ssa.Lookup:
+		return an.Resolve(x.X) == m
+	case *ssa.Extract:
+		if nx, ok := x.Tuple.(*ssa.Next); ok {
+			if r, ok := nx.Iter.(*ssa.Range); ok {
+				return an.Resolve(r.X) == m && x.Index == 2
+			}
 		}
 	}
-	if n == 0 {
-		c.Unsure(cons, fn.Pos(), "no return with a nil error found")
-	}
+	return false
 }
 
 // ---------------------------------------------------------------------------------------------
@@ -935,28 +2089,73 @@ func c08Forward(c *rt.Ctx, name string) {
 				continue
 			}
 		}
-		if a != ssa.Value(fn.Params[i]) {
-			if p, ok := a.(*ssa.Parameter); ok {
+		if ra := an.Resolve(a); ra != ssa.Value(fn.Params[i]) {
+			if p, ok := ra.(*ssa.Parameter); ok {
 				c.Bad(cons, call.Pos(), "argument "+fn.Params[i].Name()+" is replaced by parameter "+p.Name()+": the arguments reach the implementation permuted")
+			} else if _, ok := ra.(*ssa.Const); ok {
+				c.Bad(cons, call.Pos(), "argument "+fn.Params[i].Name()+" is replaced by a constant")
 			} else {
-				c.Bad(cons, call.Pos(), "argument "+fn.Params[i].Name()+" is not forwarded unchanged")
+				c.Unsure(cons, call.Pos(), "cannot tell whether argument "+fn.Params[i].Name()+" is forwarded unchanged")
 			}
 			return
 		}
 	}
+	// results: the implementation's own results; a constant nil error only on the nil edge of the implementation's
+	// error, other results of a failing return carry no obligation
 	nres := fn.Signature.Results().Len()
-	for _, r := range c09Returns(fn) {
-		for i, v := range r.Vals {
-			good := false
-			if nres == 1 {
-				good = v == call.Value()
-			} else if ex, ok := v.(*ssa.Extract); ok {
-				good = ex.Tuple == call.Value() && ex.Index == i
-			}
-			if !good {
-				c.Bad(cons, posOf(r.Ret), "a result is not the implementation's result")
+	errIdx := c08ErrResult(fn)
+	implRes := func(v ssa.Value, i int) bool {
+		v = an.Resolve(v)
+		if nres == 1 {
+			return v == call.Value()
+		}
+		ex, ok := v.(*ssa.Extract)
+		return ok && ex.Tuple == call.Value() && ex.Index == i
+	}
+	var implErr ssa.Value
+	if errs, _ := an.StatusOf(call, -1); len(errs) == 1 {
+		implErr = errs[0]
+	}
+	for _, r := range c08Returns(fn) {
+		failing := false
+		if errIdx >= 0 {
+			e, sink := r.Vals[errIdx], r.Sink[errIdx]
+			switch {
+			case e == nil:
+				c.Unsure(cons, posOf(r.Ret), "a returned error cannot be resolved")
+				return
+			case implRes(e, errIdx):
+				failing = implErr != nil && c09NonNilEdge(fn, implErr, sink)
+			case an.IsNilConst(e):
+				if implErr == nil || !c08NilEdge(fn, implErr, sink) {
+					c.Bad(cons, posOf(r.Ret), "a nil error is returned although the implementation's verdict is not nil on that path")
+					return
+				}
+			case c08NonNilErr(e) && implErr != nil && c09NonNilEdge(fn, implErr, sink):
+				failing = true
+			default:
+				c.Unsure(cons, posOf(r.Ret), "cannot relate a returned error to the implementation's result")
 				return
 			}
+		}
+		if failing {
+			continue
+		}
+		for i, v := range r.Vals {
+			if i == errIdx {
+				continue
+			}
+			if v != nil && implRes(v, i) {
+				continue
+			}
+			if v != nil {
+				if _, isConst := an.Resolve(v).(*ssa.Const); isConst {
+					c.Bad(cons, posOf(r.Ret), "a constant is returned instead of the implementation's result")
+					return
+				}
+			}
+			c.Unsure(cons, posOf(r.Ret), "cannot tell whether a result is the implementation's result")
+			return
 		}
 	}
 	c.Good(cons, call.Pos(), "")
@@ -1037,15 +2236,19 @@ func c08Impl(c *rt.Ctx) {
 // S2
 
 // c08NonNilErr: v is an error value that is non-nil by construction.
-func c08NonNilErr(c *rt.Ctx, fn *ssa.Function, v ssa.Value) bool {
-	if call, ok := v.(*ssa.Call); ok && an.Static("app/errors.New", "app/errors.Wrap")(&call.Call) {
+func c08NonNilErr(v ssa.Value) bool {
+	v = an.Resolve(v)
+	if call, ok := v.(*ssa.Call); ok && an.Static("app/errors.New", "app/errors.Wrap", "app/errors.NewSentinel", "errors.New", "fmt.Errorf")(&call.Call) {
 		return true
 	}
-	if g := c08GlobalLoad(v); g != nil {
+	if g := c08GlobalLoad(v); g != nil && g.Pkg != nil {
 		// a sentinel: assigned once, in the package initialiser, from errors.New
 		n := 0
 		initFn := g.Pkg.Func("init")
 		for _, f := range append(an.PkgFuncs(g.Pkg), initFn) {
+			if f == nil {
+				continue
+			}
 			for _, in := range an.Instrs(f, false) {
 				if st, ok := in.(*ssa.Store); ok && st.Addr == ssa.Value(g) {
 					call, isCall := st.Val.(*ssa.Call)
@@ -1076,6 +2279,112 @@ func c08NilEdge(fn *ssa.Function, e ssa.Value, at ssa.Instruction) bool {
 	return false
 }
 
+// c08ErrKnownNonNil: on the path described by known, error value e is non-nil: non-nil by construction, declared so
+// by the valuation, or a comparison of it with nil has been decided on the path.
+func c08ErrKnownNonNil(e ssa.Value, known an.H06Env) bool {
+	if e == nil {
+		return false
+	}
+	if k, ok := an.H06Eval(e, known); ok {
+		return an.H06IsNonNil(k)
+	}
+	e = an.Resolve(e)
+	if c08NonNilErr(e) {
+		return true
+	}
+	refs := e.Referrers()
+	if refs == nil {
+		return false
+	}
+	for _, r := range *refs {
+		bin, ok := r.(*ssa.BinOp)
+		if !ok || (bin.Op != token.EQL && bin.Op != token.NEQ) || !(an.IsNilConst(bin.X) || an.IsNilConst(bin.Y)) {
+			continue
+		}
+		if k, ok := known(bin); ok && k.Kind() == constant.Bool && constant.BoolVal(k) == (bin.Op == token.NEQ) {
+			return true
+		}
+	}
+	return false
+}
+
+// c08ErrKnownNil: on the path described by known, error value e is nil: the nil constant (also through a phi decided
+// by the path), or a comparison of it with nil has been decided that way.
+func c08ErrKnownNil(e ssa.Value, known an.H06Env) bool {
+	if e == nil {
+		return false
+	}
+	if k, ok := an.H06Eval(e, known); ok {
+		return !an.H06IsNonNil(k) && k.Kind() == constant.String
+	}
+	e = an.Resolve(e)
+	refs := e.Referrers()
+	if refs == nil {
+		return false
+	}
+	for _, r := range *refs {
+		bin, ok := r.(*ssa.BinOp)
+		if !ok || (bin.Op != token.EQL && bin.Op != token.NEQ) || !(an.IsNilConst(bin.X) || an.IsNilConst(bin.Y)) {
+			continue
+		}
+		if k, ok := known(bin); ok && k.Kind() == constant.Bool && constant.BoolVal(k) == (bin.Op == token.EQL) {
+			return true
+		}
+	}
+	return false
+}
+
+// c08NilReturnPath searches a path from `from` (inclusive when entry) to a return whose error result is nil (definite)
+// or, if there is none, to one whose error result is not known to be non-nil (definite == false), under valuation env,
+// not passing through stop.
+func c08NilReturnPath(fn *ssa.Function, from ssa.Instruction, inclusive bool, env an.H06Env, stop ssa.Instruction) (hit *ssa.Return, definite, found bool) {
+	errIdx := c08ErrResult(fn)
+	base := func(v ssa.Value) (constant.Value, bool) {
+		if env != nil {
+			if k, ok := env(v); ok {
+				return k, true
+			}
+		}
+		if _, isConst := v.(*ssa.Const); !isConst && an.IsErrorType(v.Type()) && c08NonNilErr(v) {
+			return an.H06NonNil, true
+		}
+		return nil, false
+	}
+	search := func(onlyDefinite bool) (*ssa.Return, bool) {
+		var h *ssa.Return
+		_, ok := an.H06Escape(from, an.H06Opt{
+			Env:       base,
+			Inclusive: inclusive,
+			Effect:    func(in ssa.Instruction) bool { return stop != nil && in == stop },
+			ReturnOK: func(r *ssa.Return, known an.H06Env) bool {
+				if fn.Recover != nil && r.Block() == fn.Recover {
+					return true
+				}
+				vals := returnValues(r)
+				if errIdx < 0 || errIdx >= len(vals) {
+					return true
+				}
+				if c08ErrKnownNonNil(vals[errIdx], known) {
+					return true
+				}
+				if onlyDefinite && !c08ErrKnownNil(vals[errIdx], known) {
+					return true
+				}
+				h = r
+				return false
+			},
+		})
+		return h, ok
+	}
+	if h, ok := search(true); ok {
+		return h, true, true
+	}
+	if h, ok := search(false); ok {
+		return h, false, true
+	}
+	return nil, false, false
+}
+
 func c08VerifyGate(c *rt.Ctx, name, libFn string) {
 	fn := c.Fn("tbls.Herumi." + name)
 	pre := "Herumi." + name + " "
@@ -1083,29 +2392,46 @@ func c08VerifyGate(c *rt.Ctx, name, libFn string) {
 	if len(gate.Call.Args) != 3 {
 		c.Bail("%s: %s: unexpected arity", an.FuncName(fn), libFn)
 	}
+	if c08ErrResult(fn) != 0 || fn.Signature.Results().Len() != 1 {
+		c.Bail("%s: unexpected result count", an.FuncName(fn))
+	}
 	cons := pre + "nil only on the true edge of " + libFn
-	nils := 0
-	for _, r := range c09Returns(fn) {
-		if len(r.Vals) != 1 {
-			c.Bail("%s: unexpected result count", an.FuncName(fn))
-		}
-		e, sink := r.Vals[0], r.Sink[0]
-		switch {
-		case e == nil:
-			c.Unsure(cons, posOf(r.Ret), "returned error value cannot be resolved")
-		case an.IsNilConst(e) || c08NilEdge(fn, e, sink):
-			nils++
-			ok, why := an.Guarded(gate, sink, an.GuardOpt{BoolIdx: 0, BoolWant: true, NoErr: true})
-			c.Check(cons, posOf(r.Ret), ok, "nil (signature accepted) is returned on a path on which "+libFn+" did not return true: "+why)
-		case c08NonNilErr(c, fn, e):
-		case c09NonNilEdge(fn, e, sink):
-		default:
-			c.Unsure(cons, posOf(r.Ret), "cannot tell whether the returned error can be nil without "+libFn+" succeeding")
-		}
+	// (a) no return that may carry a nil error is reachable without consulting the library
+	if len(fn.Blocks) == 0 || len(fn.Blocks[0].Instrs) == 0 {
+		c.Bail("%s: no body", an.FuncName(fn))
 	}
-	if nils == 0 {
-		c.Unsure(cons, fn.Pos(), "no return of a nil error found")
+	if r, definite, found := c08NilReturnPath(fn, fn.Blocks[0].Instrs[0], true, nil, gate); found && definite {
+		c.Bad(cons, posOf(r), "nil (signature accepted) can be returned on a path that never calls "+libFn)
+	} else if found {
+		c.Unsure(cons, posOf(r), "cannot tell whether the error returned on a path that never calls "+libFn+" can be nil")
+	} else {
+		c.Good(cons, gate.Pos(), "every path to a possibly-nil return passes "+libFn)
 	}
+	// (b) after a false verdict no return that may carry a nil error is reachable
+	envFalse := func(v ssa.Value) (constant.Value, bool) {
+		if v == ssa.Value(gate) {
+			return constant.MakeBool(false), true
+		}
+		return nil, false
+	}
+	if r, definite, found := c08NilReturnPath(fn, gate, false, envFalse, gate); found && definite {
+		c.Bad(cons, posOf(r), "nil (signature accepted) is returned on a path on which "+libFn+" returned false")
+	} else if found {
+		c.Unsure(cons, posOf(r), "cannot tell whether the error returned after a false verdict of "+libFn+" can be nil")
+	} else {
+		c.Good(cons, gate.Pos(), "a false verdict never leads to a nil return")
+	}
+	// (c) the verdict is used at all (vacuity): after a true verdict a nil return is reachable
+	envTrue := func(v ssa.Value) (constant.Value, bool) {
+		if v == ssa.Value(gate) {
+			return constant.MakeBool(true), true
+		}
+		return nil, false
+	}
+	if _, _, found := c08NilReturnPath(fn, gate, false, envTrue, gate); !found {
+		c.Unsure(cons, fn.Pos(), "no return of a nil error found after a true verdict")
+	}
+
 	sigP := c08ParamsOf(fn, func(t types.Type) bool { return an.TypeName(t) == "tbls.Signature" })
 	msgP := c08ParamsOf(fn, func(t types.Type) bool { return types.TypeString(t, nil) == "[]byte" })
 	if len(sigP) != 1 || len(msgP) != 1 {
@@ -1113,149 +2439,276 @@ func c08VerifyGate(c *rt.Ctx, name, libFn string) {
 	}
 	// signature operand
 	cons = pre + "signature operand"
-	if w, st, why := c08SoleWriter(c08Alloc(gate.Call.Args[0]), gate, "Deserialize"); st != "ok" {
-		c08Record(c, cons, gate.Pos(), st, why)
+	if res := c08Top(gate.Call.Args[0], gate, nil, "Deserialize"); res.St != "ok" {
+		c08Record(c, cons, gate.Pos(), res.St, res.Why)
 	} else {
-		src, full := c08BytesSrc(w.Call.Args[1])
+		src, full, ok := c08BytesSrc(res.P.W.Call.Args[1], res.P.F)
 		switch {
-		case src == ssa.Value(sigP[0]) && full:
-			c.Good(cons, gate.Pos(), "")
-		case src == nil:
+		case !ok:
 			c.Unsure(cons, gate.Pos(), "cannot resolve the bytes the signature is deserialised from")
-		default:
+		case src.F == nil && src.V == ssa.Value(sigP[0]) && full:
+			c.Good(cons, gate.Pos(), "")
+		case src.F == nil && (src.V == ssa.Value(sigP[0]) || c08IsParam(src.V)):
 			c.Bad(cons, gate.Pos(), "the signature checked is not deserialised from the whole signature parameter")
+		default:
+			c.Unsure(cons, gate.Pos(), "cannot relate the bytes the signature is deserialised from to the signature parameter")
 		}
 	}
 	// message operand
-	c.Check(pre+"message operand", gate.Pos(), gate.Call.Args[2] == ssa.Value(msgP[0]), "the message checked is not the data parameter")
+	cons = pre + "message operand"
+	switch m := an.Resolve(gate.Call.Args[2]); {
+	case m == ssa.Value(msgP[0]):
+		c.Good(cons, gate.Pos(), "")
+	case c08IsParam(m):
+		c.Bad(cons, gate.Pos(), "the message checked is not the data parameter")
+	default:
+		if sl, ok := m.(*ssa.Slice); ok && sl.Low == nil && sl.High == nil && an.Resolve(sl.X) == ssa.Value(msgP[0]) {
+			c.Good(cons, gate.Pos(), "")
+		} else if _, ok := m.(*ssa.Const); ok {
+			c.Bad(cons, gate.Pos(), "the message checked is a constant, not the data parameter")
+		} else {
+			c.Unsure(cons, gate.Pos(), "cannot relate the message checked to the data parameter")
+		}
+	}
 	// public key operand(s)
 	cons = pre + "public key operand"
-	if pkA := c08Alloc(gate.Call.Args[1]); pkA != nil {
-		pkP := c08ParamsOf(fn, func(t types.Type) bool { return an.TypeName(t) == "tbls.PublicKey" })
-		if len(pkP) != 1 {
-			c.Bail("%s: expected one PublicKey parameter", an.FuncName(fn))
-		}
-		w, st, why := c08SoleWriter(pkA, gate, "Deserialize")
-		if st != "ok" {
-			c08Record(c, cons, gate.Pos(), st, why)
-			return
-		}
-		src, full := c08BytesSrc(w.Call.Args[1])
-		switch {
-		case src == ssa.Value(pkP[0]) && full:
-			c.Good(cons, gate.Pos(), "")
-		case src == nil:
-			c.Unsure(cons, gate.Pos(), "cannot resolve the bytes the public key is deserialised from")
-		default:
-			c.Bad(cons, gate.Pos(), "the public key checked against is not deserialised from the whole public key parameter")
-		}
-		return
-	}
-	// list of public keys accumulated over the whole parameter slice
 	listP := c08ParamsOf(fn, func(t types.Type) bool {
 		s, ok := t.Underlying().(*types.Slice)
 		return ok && an.TypeName(s.Elem()) == "tbls.PublicKey"
 	})
-	phi, early := c08AccumPhi(fn, gate.Call.Args[1])
-	if len(listP) != 1 || phi == nil {
-		c.Unsure(cons, gate.Pos(), "public key operand is neither a local key nor a list accumulated by a loop")
+	if len(listP) == 0 {
+		pkP := c08ParamsOf(fn, func(t types.Type) bool { return an.TypeName(t) == "tbls.PublicKey" })
+		if len(pkP) != 1 {
+			c.Bail("%s: expected one PublicKey parameter", an.FuncName(fn))
+		}
+		res := c08Top(gate.Call.Args[1], gate, nil, "Deserialize")
+		if res.St != "ok" {
+			c08Record(c, cons, gate.Pos(), res.St, res.Why)
+			return
+		}
+		src, full, ok := c08BytesSrc(res.P.W.Call.Args[1], res.P.F)
+		switch {
+		case !ok:
+			c.Unsure(cons, gate.Pos(), "cannot resolve the bytes the public key is deserialised from")
+		case src.F == nil && src.V == ssa.Value(pkP[0]) && full:
+			c.Good(cons, gate.Pos(), "")
+		case src.F == nil && (src.V == ssa.Value(pkP[0]) || c08IsParam(src.V)):
+			c.Bad(cons, gate.Pos(), "the public key checked against is not deserialised from the whole public key parameter")
+		default:
+			c.Unsure(cons, gate.Pos(), "cannot relate the bytes the public key is deserialised from to the public key parameter")
+		}
 		return
 	}
-	if early && c08LoopAt(fn, phi.Block()).RangeColl() == ssa.Value(listP[0]) {
+	// list of public keys filled over the whole parameter slice
+	if len(listP) != 1 {
+		c.Bail("%s: expected one []PublicKey parameter", an.FuncName(fn))
+	}
+	// the list may be built by a helper that receives the parameter slice
+	lfn, keys, list := fn, ssa.Value(listP[0]), gate.Call.Args[1]
+	var consume ssa.Instruction = gate
+	if g, cons2, in2, ls, st, why := c08Descend(fn, consume, keys, []ssa.Value{list}); st == "ok" {
+		lfn, consume, keys, list = g, cons2, in2, ls[0]
+	} else if st != "" {
+		c08Record(c, cons, gate.Pos(), st, why)
+		return
+	}
+	fl := c08FillOf(lfn, list)
+	if fl == nil || fl.Loop == nil {
+		c.Unsure(cons, gate.Pos(), "public key operand is not a list filled by a loop")
+		return
+	}
+	l := fl.Loop
+	ranges := l.RangeColl() != nil && an.Resolve(l.RangeColl()) == keys
+	if fl.Early && ranges && c08ExitReaches(l, consume) != nil {
 		c.Bad(cons, gate.Pos(), "the loop over the public keys can be left early towards the check: only a prefix of the keys is verified against")
 		return
 	}
-	l := c08LoopAt(fn, phi.Block())
-	if l == nil || l.RangeColl() != ssa.Value(listP[0]) || l.Body[gate.Block()] || !l.Header.Dominates(gate.Block()) {
-		c.Unsure(cons, gate.Pos(), "the key list is not accumulated by a loop over the public key parameter that precedes the check")
+	if fl.Odd != "" {
+		c.Unsure(cons, gate.Pos(), fl.Odd)
 		return
 	}
-	if b := an.C05LoopLeavesOnlyAtHeader(l, gate); b != nil {
+	if !ranges || l.Body[consume.Block()] || !l.Header.Dominates(consume.Block()) {
+		c.Unsure(cons, gate.Pos(), "the key list is not filled by a loop over the public key parameter that precedes the check")
+		return
+	}
+	if b := c08ExitReaches(l, consume); b != nil {
 		c.Bad(cons, posOf(b.Instrs[len(b.Instrs)-1]), "the loop over the public keys can be left early towards the check: only a prefix of the keys is verified against")
 		return
 	}
-	for j, pred := range l.Header.Preds {
-		e := phi.Edges[j]
-		pos := posOf(pred.Instrs[len(pred.Instrs)-1])
-		if !l.Body[pred] {
-			if !c08EmptyList(e) {
-				c.Unsure(cons, pos, "the key list is not empty when the loop starts")
-			}
-			continue
+	switch fl.Kind {
+	case "append":
+		if !fl.Start {
+			c.Unsure(cons, gate.Pos(), "the key list is not empty when the loop starts")
 		}
-		if e == ssa.Value(phi) {
-			c.Bad(cons, pos, "an iteration can skip its public key: the aggregate is verified against a subset of the given keys")
-			continue
+		for _, j := range fl.Skips {
+			pred := l.Header.Preds[j]
+			c.Bad(cons, posOf(pred.Instrs[len(pred.Instrs)-1]), "an iteration can skip its public key: the aggregate is verified against a subset of the given keys")
 		}
-		ap, elems := c08IsAppendTo(e, phi)
-		if ap == nil || len(elems) != 1 {
-			c.Unsure(cons, pos, "a back edge of the loop does not carry append(list, one key)")
-			continue
-		}
-		w, st, why := c08SoleWriter(c08LoadOf(elems[0]), ap, "Deserialize")
-		if st != "ok" {
-			c08Record(c, cons, ap.Pos(), st, why)
-			continue
-		}
-		sl, isSl := w.Call.Args[1].(*ssa.Slice)
+	case "index":
 		switch {
-		case isSl && sl.Low == nil && sl.High == nil && l.ElemOf(sl.X):
-			c.Good(cons, ap.Pos(), "")
-		case !isSl:
-			c.Unsure(cons, ap.Pos(), "cannot resolve the bytes the public key is deserialised from")
-		default:
-			c.Bad(cons, ap.Pos(), "the key appended is not deserialised from the whole element of this iteration")
+		case !c08LenOf(fl.Make.Len, keys):
+			c.Unsure(cons, gate.Pos(), "the key list is not made with len(keys) elements")
+			return
+		case !c08IsLoopIndex(l, fl.Index):
+			c.Unsure(cons, gate.Pos(), "the key list is not written at the position of the key")
+			return
+		case !c08EveryIteration(l, fl.Puts[0].At):
+			c.Bad(cons, fl.Puts[0].At.Pos(), "an iteration can skip its public key: the aggregate is verified against a list with zero keys in it")
+			return
 		}
 	}
+	for _, put := range fl.Puts {
+		res := c08Top(put.Elem, put.At, nil, "Deserialize")
+		if res.St != "ok" {
+			c08Record(c, cons, put.At.Pos(), res.St, res.Why)
+			continue
+		}
+		src, full, ok := c08BytesSrc(res.P.W.Call.Args[1], res.P.F)
+		switch {
+		case !ok:
+			c.Unsure(cons, put.At.Pos(), "cannot resolve the bytes the public key is deserialised from")
+		case src.F == nil && full && l.ElemOf(src.V):
+			c.Good(cons, put.At.Pos(), "")
+		case src.F == nil && !full && l.ElemOf(src.V):
+			c.Bad(cons, put.At.Pos(), "the key appended is not deserialised from the whole element of this iteration")
+		default:
+			c.Unsure(cons, put.At.Pos(), "cannot relate the bytes the key is deserialised from to the element of this iteration")
+		}
+	}
+}
+
+func c08IsParam(v ssa.Value) bool { _, ok := v.(*ssa.Parameter); return ok }
+
+// c08IsLoopIndex: v is the position of the current element of the slice loop l (its index variable).
+func c08IsLoopIndex(l *an.Loop, v ssa.Value) bool {
+	lin := c08LinOf(v, nil)
+	if lin.isConst() || lin.Base.F != nil {
+		return false
+	}
+	ct := c08CounterOf(lin.Base.V)
+	if ct == nil || ct.Loop.Header != l.Header || ct.Step != 1 {
+		return false
+	}
+	rng, ok := c08CounterRange(ct, lin.K)
+	return ok && rng.Lo.isConst() && rng.Lo.K == 0
 }
 
 func c08ZeroSig(c *rt.Ctx) {
 	fn := c.Fn(c09SigningPkg + ".Verify")
 	cons := "signing.Verify rejects the zero signature before tbls.Verify"
-	tv := c.OneCall(fn, an.Static("tbls.Verify"), "tbls.Verify", false)
 	sigP := c09ParamOfType(c, fn, "github.com/attestantio/go-eth2-client/spec/phase0.BLSSignature")
+	// the instruction through which the signature reaches tbls.Verify: the call itself, or the call of an in-package
+	// helper that hands its parameter on to tbls.Verify
+	var reaches func(g *ssa.Function, d int) bool
+	reaches = func(g *ssa.Function, d int) bool {
+		if len(an.Calls(g, an.Static("tbls.Verify"), true)) > 0 {
+			return true
+		}
+		if d > 2 {
+			return false
+		}
+		for _, in := range an.Instrs(g, true) {
+			if call, ok := in.(*ssa.Call); ok {
+				if h := c08InPkgCallee(call); h != nil && h != g && reaches(h, d+1) {
+					return true
+				}
+			}
+		}
+		return false
+	}
+	var sinks []ssa.CallInstruction
+	for _, in := range an.Instrs(fn, false) {
+		call, ok := in.(*ssa.Call)
+		if !ok {
+			continue
+		}
+		if an.Static("tbls.Verify")(&call.Call) {
+			sinks = append(sinks, call)
+			continue
+		}
+		if h := c08InPkgCallee(call); h != nil && h != fn && reaches(h, 0) {
+			sinks = append(sinks, call)
+		}
+	}
+	if len(sinks) != 1 {
+		c.Bail("expected exactly one call leading to tbls.Verify in %s, found %d", an.FuncName(fn), len(sinks))
+	}
+	tv := sinks[0]
 	isZero := func(v ssa.Value) bool {
 		if k, ok := v.(*ssa.Const); ok {
 			return k.Value == nil
 		}
 		if al := c08LoadOf(v); al != nil { // `var zeroSig T` kept in memory and never assigned
-			l := c08LocalOf(al)
-			return len(l.Stores) == 0 && len(l.Writers) == 0 && len(l.Unknown) == 0
+			l := c08LocalOf(al, 0)
+			return l.defs() == 0 && len(l.Unknown) == 0
 		}
 		return false
 	}
 	found := false
+	seen := false
+	unsureWhy := ""
 	why := "no comparison of the signature parameter with the zero signature guards tbls.Verify"
 	for _, cd := range an.CondsOn(fn, sigP) {
 		if cd.Other == nil || !isZero(cd.Other) || (cd.Op != token.EQL && cd.Op != token.NEQ) {
 			continue
 		}
-		eq := cd.Succ(cd.Op == token.EQL)
+		seen = true
+		// under signature == zero no path leads to tbls.Verify, and no path leads to a return that may carry nil
+		eqTrue := cd.Holds(cd.Op == token.EQL) // truth of the If condition when the signature is zero
+		env := func(v ssa.Value) (constant.Value, bool) {
+			if v == cd.If.Cond {
+				return constant.MakeBool(eqTrue), true
+			}
+			return nil, false
+		}
 		if !an.Dominates(cd.If, tv) {
 			why = "the zero-signature test does not precede tbls.Verify on every path"
 			continue
 		}
-		if !an.EdgeCuts(eq, tv, nil) {
+		if _, reach := an.H06Escape(cd.If, an.H06Opt{Env: env, Target: tv, Inclusive: true}); reach {
 			why = "tbls.Verify is still reached when the signature is all zero"
 			continue
 		}
-		// the zero edge must fail: every return reachable from it carries a non-nil error
-		fails := true
-		reach := an.ReachBlocks(eq, nil)
-		for _, r := range c09Returns(fn) {
-			if !reach[r.Ret.Block()] {
-				continue
-			}
-			e := r.Vals[len(r.Vals)-1]
-			if e == nil || !(c08NonNilErr(c, fn, e) || c09NonNilEdge(fn, e, r.Sink[len(r.Sink)-1])) {
-				fails = false
-			}
-		}
-		if !fails {
+		if _, definite, nilRet := c08NilReturnPath(fn, cd.If, true, env, nil); nilRet && definite {
 			why = "the zero-signature edge can return a nil error"
+			continue
+		} else if nilRet {
+			unsureWhy = "cannot tell whether the error returned for the zero signature can be nil"
 			continue
 		}
 		found = true
 	}
-	c.Check(cons, tv.Pos(), found, why)
+	switch {
+	case found:
+		c.Good(cons, tv.Pos(), "")
+	case seen && unsureWhy != "":
+		c.Unsure(cons, tv.Pos(), unsureWhy)
+	case seen:
+		c.Bad(cons, tv.Pos(), why)
+	default:
+		// no recognisable comparison: a defect only if the parameter visibly goes nowhere but into tbls.Verify
+		other := false
+		for _, ref := range *sigP.Referrers() {
+			switch x := ref.(type) {
+			case *ssa.DebugRef:
+			case *ssa.ChangeType, *ssa.Convert:
+				for _, r2 := range *x.(ssa.Value).Referrers() {
+					if r2 != ssa.Instruction(tv.(*ssa.Call)) {
+						if _, dbg := r2.(*ssa.DebugRef); !dbg {
+							other = true
+						}
+					}
+				}
+			default:
+				if ref != ssa.Instruction(tv.(*ssa.Call)) {
+					other = true
+				}
+			}
+		}
+		if other {
+			c.Unsure(cons, tv.Pos(), "the signature parameter is examined in a way this rule does not recognise")
+		} else {
+			c.Bad(cons, tv.Pos(), why)
+		}
+	}
 }
